@@ -1,32 +1,1780 @@
 """C18 -- The meta application never reveals secrets and always renders.
 
 Decided:
-  R18.a  who may read resource values: every read of a ``.resources`` attribute in meta.py is key-only
-         (``in``, ``.keys()``, ``len``), a constant-key subscript on the meta application's own resources,
-         or the items() loop of get_resource_info, in which the *value* variable is used only on the branch
-         where ``'secret' in key`` is false, and the true branch stores a constant marker; no peripheral
-         context stores an Application / route / middleware / request object itself (so the JSON encoder
-         cannot reach a value by traversal);
-  R18.b  middleware info: get_mw_infos reads only the class name, provides, requires and repr(mw); no
-         ``__repr__`` of a Middleware subclass in clastic reads an attribute whose name contains 'secret'
-         or 'key' (SignedCookieMiddleware.__repr__ shows arg_name and cookie_name only);
-  R18.c  sections fail soft: in get_main the inject(peri.get_context, ...) call, and in
-         render_main_page_html both inject calls, are each under ``except Exception`` handlers that
-         substitute a placeholder and do not re-raise;
+  R18.a  who may read resource values -- a value-flow analysis over meta.py.  Sources are the reads of a ``.resources``
+         mapping and of ``get_defaults_dict()``; the flow is followed through local aliases, copies (``dict(m)``,
+         ``sorted(m.items())``, ``enumerate``), helper functions / (static)methods of the tree the mapping, a pair or
+         a value is handed to (also nested functions, which in addition read the tagged locals of their enclosing
+         function), comprehensions, generators and lambdas.  Every occurrence must be one of
+           * names only: ``in``, ``.keys()``, ``len`` / ``sorted`` / ``list`` / ``zip`` .., iteration over the names,
+             an emptiness test, a constant-key subscript on the meta application's own resources;
+           * an iteration over ``items()`` (pairs taken apart in the loop target, in the body or by a helper) or a
+             lookup ``m[name]``, where the *value* is evaluated only where ``'secret' in <name>`` is known to be
+             false: path conditions of the statement (if / elif / guard clauses with return / continue, named
+             conditions, a sentinel set on one branch), arms of conditional expressions, ``and`` / ``or`` operands,
+             comprehension filters; the fragment may be a module-level constant, the test a one-expression
+             predicate function, the name lower-cased;
+         the tested name is the intact key (never re-bound where it is bound together with the value); where
+         'secret' is in the name a constant marker is produced (literal or module constant; on the branch, or as a
+         default that is replaced only on the non-secret branch) and reaches the listing (appended / yielded /
+         element of the returned comprehension, possibly through locals and the helper's return value).  Parameter
+         defaults of endpoints are consulted by name only.  No peripheral context stores an Application / route /
+         middleware / request object itself (conventional names, aliases, loop variables over .routes /
+         .middlewares / .peripherals, parameters of helpers they are handed to), so the JSON encoder cannot reach a
+         value by traversal;
+  R18.b  middleware info: where get_mw_infos (loop, comprehension, map(), generator or row helper) holds one
+         middleware, only the class name, provides, requires and repr(mw) are read; no ``__repr__`` / ``__str__`` of
+         Middleware or a subclass reads -- itself or through the methods it calls -- an attribute whose name
+         contains 'secret' or 'key', ``vars()`` / ``__dict__`` or an attribute chosen at run time;
+  R18.c  sections fail soft: the inject(<peripheral>.get_context, ..) call of get_main and the two inject calls of
+         render_main_page_html -- in the method, in a helper, a nested function or a lambda that is followed to where
+         it runs -- are each under an ``except Exception`` handler (around the call or around the call of the helper)
+         that does not re-raise, substitutes a placeholder (or leaves the one stored right before the try) and does
+         not index into the exception; the try statement is inside the loop over the peripherals; a generator helper
+         is protected only where it is consumed;
   R18.d  templates: every reference of the meta_*.html templates is escaped, except the allow-listed
          {content|s} of meta_base.html, whose value is an ashes render of a checked section template.
-Declined: "200 for any host application" beyond R18.c; secrets inside the repr of non-secret-named resources.
+Declined: "200 for any host application" beyond R18.c (code outside the protected calls, totality of the handlers);
+secrets inside the repr of non-secret-named resources.
 """
 import ast
 import os
 
 from ..core import AnalysisError, norm, short
+from ..cfg import expand_conds
 from .c20 import check_template_escaping, autoescape_writes
 from .common import (cfg_of, fkey, conds, has_cond, cond_texts, stmts_of, walk_body, call_tail, call_name, returns_of,
                      raises_of, stmt_of, kwarg, protected_by, names_loaded)
 
 META = 'clastic.meta'
 OBJECT_NAMES = {'_application', 'app', 'application', 'route', 'r', 'mw', 'request', '_route', '_meta_application', 'self'}
+OWNERS = ('_meta_application', 'self')
+FRAGMENT = 'secret'
+# builtins that look at the *names* of a mapping only
+KEY_ONLY = {'len', 'sorted', 'list', 'set', 'tuple', 'frozenset', 'bool', 'iter', 'reversed'}
+# builtins that hand an iterable of pairs on unchanged (as far as the analysis is concerned)
+SEQ_THROUGH = {'sorted', 'list', 'tuple', 'reversed', 'iter'}
+COMPS = (ast.ListComp, ast.SetComp, ast.GeneratorExp, ast.DictComp)
+MW_ATTRS = {'__class__', 'provides', 'requires', 'endpoint_provides', 'render_provides', 'name'}
+
+
+# ------------------------------------------------------------------------------------------ generic helpers
+def _local_names(fi):
+    """Names bound inside the function (parameters, stores, comprehension targets, handler names)."""
+    c = getattr(fi, '_c18_locals', None)
+    if c is None:
+        c = set(fi.params())
+        a = fi.node.args
+        for x in (a.vararg, a.kwarg):
+            if x is not None:
+                c.add(x.arg)
+        for n in ast.walk(fi.node):
+            if isinstance(n, ast.Name) and isinstance(n.ctx, (ast.Store, ast.Del)):
+                c.add(n.id)
+            elif isinstance(n, ast.ExceptHandler) and n.name:
+                c.add(n.name)
+        fi._c18_locals = c
+    return c
+
+
+def _walk(fi):
+    """All nodes of the function body, lambdas included (their bodies run later, but they read the same locals);
+    nested function / class definitions are functions of their own."""
+    todo = list(reversed(fi.node.body))
+    while todo:
+        n = todo.pop()
+        yield n
+        if isinstance(n, (ast.FunctionDef, ast.AsyncFunctionDef, ast.ClassDef)):
+            todo.extend(reversed(n.decorator_list))
+            continue
+        todo.extend(reversed(list(ast.iter_child_nodes(n))))
+
+
+def _fold_str(repo, fi, expr):
+    """Folded value of a constant-valued expression (literals and module-level constants); None when it reads a
+    local or cannot be folded."""
+    v = _fold_any(repo, fi, expr)
+    return v if isinstance(v, str) else None
+
+
+def _fold_any(repo, fi, expr):
+    """Value of a constant-valued expression: literals, module-level constants, and class-level constants read as
+    ``self.X`` / ``cls.X`` / ``Class.X`` (when no code of the module assigns that attribute)."""
+    if expr is None:
+        return None
+    if isinstance(expr, ast.Attribute) and isinstance(expr.value, ast.Name) and isinstance(expr.ctx, ast.Load):
+        ci = None
+        if expr.value.id in ('self', 'cls'):
+            ci = _class_of(fi)
+        elif expr.value.id not in _local_names(fi):
+            kind, m, obj = repo.resolve(fi.mod, expr.value.id)
+            if kind == 'class' and m is not None and not m.external:
+                ci = obj
+        if ci is not None:
+            dc, val = repo.class_attr(ci, expr.attr)
+            if dc is not None and isinstance(val, ast.expr) and not any(
+                    isinstance(n, ast.Attribute) and n.attr == expr.attr and isinstance(n.ctx, (ast.Store, ast.Del)) for n in ast.walk(dc.mod.tree)):
+                # (a subclass of the analysed module may override it: all definitions must agree)
+                vals = set()
+                for c in dc.mod.classes.values():
+                    if expr.attr in c.class_attrs and (c is dc or dc in repo.mro(c)):
+                        v = repo.try_fold(c.class_attrs[expr.attr], c.mod) if c.class_attrs[expr.attr] is not None else None
+                        vals.add(repr(v))
+                        last = v
+                if len(vals) == 1:
+                    return last
+            return None
+    loc = _local_names(fi)
+    for n in ast.walk(expr):
+        if isinstance(n, ast.Name) and n.id in loc:
+            return None
+    return repo.try_fold(expr, fi.mod)
+
+
+def resolve_callee(repo, fi, call):
+    """(FuncInfo, number of leading parameters bound implicitly) of a call whose callee is a function of the analysed
+    tree: ``helper(..)``, ``self.helper(..)`` / ``cls.helper(..)``, ``Class.helper(..)``; else (None, 0)."""
+    f = call.func
+    try:
+        if isinstance(f, ast.Name):
+            nested = nested_function(fi, f.id)
+            if nested is not None:
+                return nested, 0
+            if f.id in _local_names(fi):
+                return None, 0
+            kind, m, obj = repo.resolve(fi.mod, f.id)
+            if kind == 'func' and m is not None and not m.external:
+                return obj, 0
+        elif isinstance(f, ast.Attribute) and isinstance(f.value, ast.Name):
+            recv = f.value.id
+            ci = None
+            via_instance = False
+            if recv in ('self', 'cls'):
+                ci = _class_of(fi)
+                via_instance = True
+            elif recv not in _local_names(fi):
+                kind, m, obj = repo.resolve(fi.mod, recv)
+                if kind == 'class' and m is not None and not m.external:
+                    ci = obj
+            if ci is None and recv in _local_names(fi):
+                # a method call on a local of unknown class: followed when exactly one class of the module defines a
+                # method of that name (``peri.safe_get_context(..)``)
+                defs = [c.methods[f.attr] for c in fi.mod.classes.values() if f.attr in c.methods]
+                if len(defs) == 1 and not any(f.attr in c.class_attrs for c in fi.mod.classes.values()):
+                    decos = [norm(d) for d in defs[0].node.decorator_list]
+                    if not decos:
+                        return defs[0], 1
+                    if decos == ['staticmethod']:
+                        return defs[0], 0
+                return None, 0
+            if ci is not None:
+                meth = repo.find_method(ci, f.attr)
+                if meth is not None and not meth.mod.external:
+                    decos = [norm(d) for d in meth.node.decorator_list]
+                    if 'staticmethod' in decos:
+                        return meth, 0
+                    if 'classmethod' in decos:
+                        return meth, 1
+                    if decos:
+                        return None, 0
+                    return meth, (1 if via_instance else 0)
+    except AnalysisError:
+        pass
+    return None, 0
+
+
+def nested_function(fi, name):
+    """The function ``name`` defined inside ``fi`` or inside a function enclosing it (a closure visible from ``fi``)."""
+    mod = fi.mod
+    q = fi.qualname
+    while True:
+        cand = mod.functions.get(q + '.' + name)
+        if cand is not None and isinstance(mod.parents.get(cand.node), (ast.FunctionDef, ast.AsyncFunctionDef, ast.If, ast.Try, ast.With, ast.For)):
+            # (not re-bound as a plain variable in the function that defines it)
+            owner = mod.functions.get(q)
+            if owner is None or not any(isinstance(n, ast.Name) and n.id == name and isinstance(n.ctx, (ast.Store, ast.Del))
+                                        for n in ast.walk(owner.node)):
+                return cand
+            return None
+        q = q.rpartition('.')[0]
+        if not q or q not in mod.functions:
+            return None
+
+
+def free_names(fi):
+    """Names a nested function reads from the enclosing scopes."""
+    loc = _local_names(fi)
+    return set(n.id for n in ast.walk(fi.node) if isinstance(n, ast.Name) and isinstance(n.ctx, ast.Load) and n.id not in loc)
+
+
+def _class_of(fi):
+    """ClassInfo of the class whose body defines the method ``fi`` (None for plain functions)."""
+    if fi.cls is not None:
+        return fi.cls
+    par = fi.mod.parents.get(fi.node)
+    if isinstance(par, ast.ClassDef):
+        for c in fi.mod.classes.values():
+            if c.node is par:
+                return c
+    return None
+
+
+def bind_args(callee, skip, call):
+    """{parameter name: argument expression} for the explicitly passed arguments; None when the call cannot be
+    matched to the signature (star arguments, unknown keyword)."""
+    a = callee.node.args
+    params = [x.arg for x in a.posonlyargs + a.args][skip:]
+    kwonly = [x.arg for x in a.kwonlyargs]
+    if any(isinstance(x, ast.Starred) for x in call.args) or any(k.arg is None for k in call.keywords):
+        return None
+    if len(call.args) > len(params) and a.vararg is None:
+        return None
+    out = {}
+    for p, x in zip(params, call.args):
+        out[p] = x
+    for k in call.keywords:
+        if k.arg in out or (k.arg not in params and k.arg not in kwonly):
+            if a.kwarg is None:
+                return None
+            continue
+        out[k.arg] = k.value
+    return out
+
+
+def call_of_arg(mod, node):
+    """The Call in which ``node`` is passed as a positional or keyword argument (else None)."""
+    par = mod.parents.get(node)
+    if isinstance(par, ast.Call) and any(node is x for x in par.args):
+        return par
+    if isinstance(par, ast.keyword) and par.value is node:
+        gp = mod.parents.get(par)
+        if isinstance(gp, ast.Call):
+            return gp
+    return None
+
+
+def is_aliased(mod, n):
+    """``n`` is the whole value bound to a plain local: ``x = n`` / ``x: T = n`` / ``(x := n)`` / ``a, x = .., n``."""
+    par = mod.parents.get(n)
+    if isinstance(par, (ast.Assign, ast.AnnAssign, ast.NamedExpr)) and par.value is n:
+        return all(isinstance(x, ast.Name) for x in (par.targets if isinstance(par, ast.Assign) else [par.target]))
+    if isinstance(par, (ast.Tuple, ast.List)):
+        asg = mod.parents.get(par)
+        if isinstance(asg, ast.Assign) and asg.value is par and len(asg.targets) == 1 and isinstance(asg.targets[0], (ast.Tuple, ast.List)) and \
+                len(asg.targets[0].elts) == len(par.elts) and not any(isinstance(x, ast.Starred) for x in par.elts + asg.targets[0].elts):
+            i = [j for j, x in enumerate(par.elts) if x is n]
+            return bool(i) and isinstance(asg.targets[0].elts[i[0]], ast.Name)
+    return False
+
+
+def expr_conds(fi, node):
+    """Conditions (test, polarity) known to hold whenever the expression ``node`` is evaluated: the path conditions of
+    its statement (CFG: if / elif / guard clauses / named conditions) plus what the expression context adds --
+    the arm of a conditional expression, the later operand of ``and`` / ``or``, the filters of the comprehension
+    that produces the element.  Code in a lambda runs later: statement-level conditions do not carry over."""
+    mod = fi.mod
+    out = []
+    cur = node
+    deferred = False
+    stmt = None
+    while cur is not None and cur is not fi.node:
+        if isinstance(cur, ast.stmt):
+            stmt = cur
+            break
+        par = mod.parents.get(cur)
+        if isinstance(par, ast.IfExp):
+            if cur is par.body:
+                out.append((par.test, True))
+            elif cur is par.orelse:
+                out.append((par.test, False))
+        elif isinstance(par, ast.BoolOp):
+            pol = isinstance(par.op, ast.And)
+            for v in par.values:
+                if v is cur:
+                    break
+                out.append((v, pol))
+        elif isinstance(par, COMPS):
+            # cur is the element (key / value): every filter of every generator passed
+            for g in par.generators:
+                for c in g.ifs:
+                    out.append((c, True))
+        elif isinstance(par, ast.comprehension):
+            comp = mod.parents.get(par)
+            gens = list(getattr(comp, 'generators', []))
+            for g in gens:
+                if g is par:
+                    break
+                for c in g.ifs:
+                    out.append((c, True))
+            if any(cur is c for c in par.ifs):
+                for c in par.ifs:
+                    if c is cur:
+                        break
+                    out.append((c, True))
+            cur = comp       # (the comprehension node itself adds nothing more)
+            continue
+        elif isinstance(par, ast.Lambda):
+            deferred = True
+        elif isinstance(par, (ast.FunctionDef, ast.AsyncFunctionDef, ast.ClassDef)) and par is not fi.node:
+            deferred = True
+        cur = par
+    if stmt is not None and not deferred:
+        try:
+            out.extend(conds(fi, stmt))
+        except AnalysisError:
+            pass
+    return expand_conds(out)
+
+
+def single_return_expr(fi):
+    """The expression of a function whose body is (docstring +) one ``return <expr>``; else None."""
+    body = list(fi.node.body)
+    if body and isinstance(body[0], ast.Expr) and isinstance(body[0].value, ast.Constant) and isinstance(body[0].value.value, str):
+        body = body[1:]
+    if len(body) == 1 and isinstance(body[0], ast.Return) and body[0].value is not None:
+        return body[0].value
+    return None
+
+
+def _names_only_key(kw):
+    """Keyword of ``sorted(<pairs>, ...)`` that cannot look at the values: ``reverse=..`` or ``key=lambda p: p[0]``."""
+    if kw.arg == 'reverse':
+        return True
+    if kw.arg == 'key' and isinstance(kw.value, ast.Call) and norm(kw.value.func) in ('itemgetter', 'operator.itemgetter') and \
+            len(kw.value.args) == 1 and isinstance(kw.value.args[0], ast.Constant) and kw.value.args[0].value == 0 and not kw.value.keywords:
+        return True
+    if kw.arg != 'key' or not isinstance(kw.value, ast.Lambda):
+        return False
+    lam = kw.value
+    ps = [a.arg for a in lam.args.posonlyargs + lam.args.args]
+    if len(ps) != 1 or lam.args.vararg or lam.args.kwarg or lam.args.kwonlyargs:
+        return False
+    par = {}
+    for x in ast.walk(lam.body):
+        for ch in ast.iter_child_nodes(x):
+            par[ch] = x
+    for x in ast.walk(lam.body):
+        if isinstance(x, ast.Name) and x.id == ps[0]:
+            p = par.get(x)
+            if not (isinstance(p, ast.Subscript) and p.value is x and isinstance(p.slice, ast.Constant) and p.slice.value == 0):
+                return False
+    return True
+
+
+def _loops_around(fi, node):
+    """For statements / comprehension generators of ``fi`` whose body (element) contains ``node``, innermost first."""
+    out = []
+    cur = node
+    mod = fi.mod
+    while cur is not None and cur is not fi.node:
+        par = mod.parents.get(cur)
+        if isinstance(par, ast.For) and not (cur is par.iter or cur is par.target):
+            out.append(par)
+        elif isinstance(par, COMPS) and not isinstance(cur, ast.comprehension):
+            out.extend(reversed(par.generators))
+        cur = par
+    return out
+
+
+def _iter_mentions(fi, it, word):
+    """The iterated expression mentions attribute / name ``word``, directly or through a single-assignment local."""
+    def mentions(e):
+        return any((isinstance(x, ast.Attribute) and x.attr == word) or (isinstance(x, ast.Name) and x.id == word) for x in ast.walk(e))
+    if mentions(it):
+        return True
+    for x in ast.walk(it):
+        if isinstance(x, ast.Name):
+            srcs = [s.value for s in stmts_of(fi.node) if isinstance(s, ast.Assign) and len(s.targets) == 1 and
+                    isinstance(s.targets[0], ast.Name) and s.targets[0].id == x.id]
+            if len(srcs) == 1 and mentions(srcs[0]):
+                return True
+    return False
+
+
+# ------------------------------------------------------------------------------------------ R18.a: the taint engine
+class _Site(object):
+    """One place where resource values are bound together with their names: ``for <key>, <val> in <resources>.items()``
+    (kind 'items'), ``<key>, <val> = <pair>`` for a pair taken from items() (kind 'pair'), ``<resources>[<key>]``
+    (kind 'lookup')."""
+
+    def __init__(self, fi, where, kname, vname, kind='items'):
+        self.fi, self.where, self.kname, self.vname, self.kind = fi, where, kname, vname, kind
+        self.binder = None      # the For / comprehension generator / unpacking assignment that binds key and value
+        self.uses, self.bad, self.rebinds, self.markers = [], [], [], []
+        self.shown = False
+        self._seen = set()
+
+    def use(self, fi, node, ok):
+        if id(node) in self._seen:
+            return
+        self._seen.add(id(node))
+        self.uses.append((fi, node))
+        if not ok:
+            self.bad.append((fi, node))
+
+
+class _Taint(object):
+    """Value flow of the sensitive mappings of meta.py.
+
+    Tags:  ('map', kind, own)   a mapping whose *values* are sensitive (kind: 'resources' | 'defaults')
+           ('items', kind)      its items() view (or a sorted / listed copy)
+           ('pair', kind)       one (name, value) pair of it
+           ('enum', kind)       enumerate() of its items: (number, (name, value))
+           ('val', key, site)   one value of a resources mapping; ``key`` is the local that holds its name
+    """
+    MAX_DEPTH = 4
+
+    def __init__(self, repo, mod):
+        self.repo, self.mod = repo, mod
+        self.sites = []
+        self._site_of = {}
+        self.reads = []          # (fi, node, kind text or None, detail when bad)
+        self._seen_reads = set()
+        self.n_sources = 0
+        self._source_ids = set()
+        self._stack = []
+        self._cur_fi = None
+
+    def _lookup_site(self, fi, kname, node):
+        key = (fi.key, 'lookup', kname)
+        site = self._site_of.get(key)
+        if site is None:
+            site = self._site_of[key] = _Site(fi, node, kname, '<resources>[%s]' % kname, 'lookup')
+            self.sites.append(site)
+        return site
+
+    # -- expression tags -------------------------------------------------------------------------------
+    def tags(self, e, env):
+        if isinstance(e, ast.Attribute) and e.attr == 'resources' and isinstance(e.ctx, ast.Load):
+            return {('map', 'resources', norm(e.value) in OWNERS)}
+        if isinstance(e, ast.Name) and isinstance(e.ctx, ast.Load):
+            return set(env.get(e.id, ()))
+        if isinstance(e, ast.Subscript) and isinstance(e.ctx, ast.Load) and isinstance(e.slice, ast.Name) and self._cur_fi is not None and \
+                e.slice.id in _local_names(self._cur_fi):
+            if any(t[0] == 'map' and t[1] == 'resources' for t in self.tags(e.value, env)):
+                return {('val', e.slice.id, self._lookup_site(self._cur_fi, e.slice.id, e))}
+            return set()
+        if isinstance(e, ast.Call):
+            f = e.func
+            if isinstance(f, ast.Attribute) and f.attr == 'get_defaults_dict':
+                return {('map', 'defaults', False)}
+            if isinstance(f, ast.Attribute) and not e.args and not e.keywords:
+                base = self.tags(f.value, env)
+                if f.attr == 'items':
+                    return set(('items', t[1]) for t in base if t[0] == 'map')
+                if f.attr == 'copy':
+                    return set(t for t in base if t[0] == 'map')
+            if isinstance(f, ast.Name) and len(e.args) == 1 and f.id not in env:
+                a = self.tags(e.args[0], env)
+                if f.id == 'dict' and not e.keywords:
+                    return set(t for t in a if t[0] == 'map')
+                if f.id in SEQ_THROUGH:
+                    return set(t for t in a if t[0] in ('items', 'enum'))
+                if f.id == 'enumerate' and not e.keywords:
+                    return set(('enum', t[1]) for t in a if t[0] == 'items')
+        return set()
+
+    def is_source(self, e):
+        return (isinstance(e, ast.Attribute) and e.attr == 'resources' and isinstance(e.ctx, ast.Load)) or \
+            (isinstance(e, ast.Call) and isinstance(e.func, ast.Attribute) and e.func.attr == 'get_defaults_dict')
+
+    # -- the 'secret' test -------------------------------------------------------------------------------
+    def _is_key_expr(self, fi, e, kname, depth=0):
+        """``e`` denotes the resource name held by local ``kname``: the name itself, its lower-cased form, or a
+        single-assignment local bound to one of these."""
+        if kname is None or depth > 3:
+            return False
+        if isinstance(e, ast.Name):
+            if e.id == kname:
+                return True
+            binds = [n for n in ast.walk(fi.node) if isinstance(n, ast.Name) and n.id == e.id and isinstance(n.ctx, (ast.Store, ast.Del))]
+            if len(binds) == 1 and e.id not in fi.params():
+                par = fi.mod.parents.get(binds[0])
+                if isinstance(par, ast.Assign) and len(par.targets) == 1 and par.targets[0] is binds[0]:
+                    return self._is_key_expr(fi, par.value, kname, depth + 1)
+            return False
+        if isinstance(e, ast.Call) and isinstance(e.func, ast.Attribute) and e.func.attr in ('lower', 'casefold') and \
+                not e.args and not e.keywords:
+            return self._is_key_expr(fi, e.func.value, kname, depth + 1)
+        return False
+
+    def secret_test(self, fi, t, kname, depth=0):
+        """+1 when ``t`` is true exactly if the name held by ``kname`` contains 'secret' (``'secret' in key``, the
+        fragment possibly a module-level constant, the key possibly lower-cased, the test possibly a one-expression
+        predicate function applied to the key); -1 for the negated form; 0 otherwise."""
+        if kname is None or depth > 3:
+            return 0
+        if isinstance(t, ast.UnaryOp) and isinstance(t.op, ast.Not):
+            return -self.secret_test(fi, t.operand, kname, depth)
+        if isinstance(t, ast.Name) and isinstance(t.ctx, ast.Load):
+            # a local that names the test (``is_secret = 'secret' in key`` ... ``x if is_secret else y``): it is assigned
+            # once, earlier in the same loop body, from the key the loop holds (the key itself is never re-bound: R18.a)
+            v = self._named_test(fi, t)
+            return self.secret_test(fi, v, kname, depth + 1) if v is not None else 0
+        if isinstance(t, ast.Compare) and len(t.ops) == 1 and isinstance(t.ops[0], (ast.In, ast.NotIn)):
+            if _fold_str(self.repo, fi, t.left) == FRAGMENT and self._is_key_expr(fi, t.comparators[0], kname):
+                return 1 if isinstance(t.ops[0], ast.In) else -1
+            return 0
+        if isinstance(t, ast.Call):
+            callee, skip = resolve_callee(self.repo, fi, t)
+            if callee is not None:
+                expr = single_return_expr(callee)
+                b = bind_args(callee, skip, t)
+                if expr is not None and b is not None:
+                    kps = [p for p, x in b.items() if isinstance(x, ast.Name) and x.id == kname]
+                    if len(kps) == 1:
+                        return self.secret_test(callee, expr, kps[0], depth + 1)
+        return 0
+
+    def _named_test(self, fi, use):
+        stores = [n for n in ast.walk(fi.node) if isinstance(n, ast.Name) and n.id == use.id and isinstance(n.ctx, (ast.Store, ast.Del))]
+        if len(stores) != 1 or use.id in fi.params():
+            return None
+        asg = fi.mod.parents.get(stores[0])
+        if not (isinstance(asg, ast.Assign) and len(asg.targets) == 1 and asg.targets[0] is stores[0]):
+            return None
+        ust = stmt_of(fi.mod, use)
+        if ust is None or getattr(asg, 'lineno', 0) >= getattr(ust, 'lineno', 0):
+            return None
+
+        def loops(st):
+            out, cur = [], st
+            while cur is not None and cur is not fi.node:
+                cur = fi.mod.parents.get(cur)
+                if isinstance(cur, (ast.For, ast.While)):
+                    out.append(id(cur))
+            return out
+        # same iteration: assignment and use sit in the same loop(s); the assignment is not in a conditional branch
+        if loops(asg) != loops(ust):
+            return None
+        par = fi.mod.parents.get(asg)
+        if not (isinstance(par, (ast.For, ast.While)) or par is fi.node):
+            return None
+        return asg.value
+
+    def polarity(self, fi, node, kname):
+        """+1: 'secret' is known to be in the name where ``node`` is evaluated; -1: known not to be; 0: unknown."""
+        if kname is None:
+            return 0
+        cs = expr_conds(fi, node)
+        for t, p in cs:
+            s = self.secret_test(fi, t, kname)
+            if s:
+                return s if p else -s
+        for t, p in cs:
+            st = self._sentinel(fi, t, p)
+            if st is not None:
+                s = self.secret_test(fi, st[0], kname)
+                if s:
+                    return s if st[1] else -s
+        return 0
+
+    def _sentinel(self, fi, t, p):
+        """``x is None`` (with polarity ``p``), where ``x`` is set by ``if T: x = <constant> / else: x = None`` and, apart
+        from that, only where the test on ``x`` has been made: the test tells which branch of T was taken.
+        Returns (T, polarity of T) or None."""
+        if not (isinstance(t, ast.Compare) and len(t.ops) == 1 and isinstance(t.ops[0], (ast.Is, ast.IsNot)) and isinstance(t.left, ast.Name) and
+                isinstance(t.comparators[0], ast.Constant) and t.comparators[0].value is None):
+            return None
+        is_none = p if isinstance(t.ops[0], ast.Is) else not p
+        x = t.left.id
+        if x in fi.params():
+            return None
+        mod = fi.mod
+        stores = [n for n in _walk(fi) if isinstance(n, ast.Name) and n.id == x and isinstance(n.ctx, (ast.Store, ast.Del))]
+        setter = None
+        for n in stores:
+            asg = mod.parents.get(n)
+            iff = mod.parents.get(asg)
+            if isinstance(asg, ast.Assign) and len(asg.targets) == 1 and asg.targets[0] is n and isinstance(iff, ast.If) and \
+                    len(iff.body) == 1 and len(iff.orelse) == 1 and all(
+                        isinstance(b, ast.Assign) and len(b.targets) == 1 and isinstance(b.targets[0], ast.Name) and b.targets[0].id == x and
+                        isinstance(b.value, ast.Constant) for b in (iff.body[0], iff.orelse[0])):
+                setter = iff
+                break
+        if setter is None:
+            # the same in one statement: x = <constant> if T else None
+            for n in stores:
+                asg = mod.parents.get(n)
+                if isinstance(asg, ast.Assign) and len(asg.targets) == 1 and asg.targets[0] is n and isinstance(asg.value, ast.IfExp) and \
+                        isinstance(asg.value.body, ast.Constant) and isinstance(asg.value.orelse, ast.Constant):
+                    setter = asg
+                    break
+        if setter is None:
+            return None
+        if isinstance(setter, ast.Assign):
+            a, b, setter_test = setter.value.body.value, setter.value.orelse.value, setter.value.test
+        else:
+            a, b, setter_test = setter.body[0].value.value, setter.orelse[0].value.value, setter.test
+        if (a is None) == (b is None):
+            return None
+        test_stmt = stmt_of(mod, t)
+        if not isinstance(test_stmt, ast.If) or getattr(setter, 'lineno', 0) >= getattr(test_stmt, 'lineno', 0) or \
+                mod.parents.get(setter) is not mod.parents.get(test_stmt):
+            return None
+        inner = set(id(y) for y in ast.walk(test_stmt)) | set(id(y) for y in ast.walk(setter))
+        if any(id(n) not in inner for n in stores):
+            return None          # set somewhere else as well
+        none_branch_pol = a is None      # T true -> None
+        return (setter_test, none_branch_pol if is_none else not none_branch_pol)
+
+    # -- one function ------------------------------------------------------------------------------------
+    def scan(self, fi, ptags, chain=()):
+        """Classify every occurrence of a tagged expression in ``fi``.  ``ptags``: tags of the parameters (callee
+        context); ``chain``: ((caller FuncInfo, call node), ...) from the outermost caller."""
+        if len(chain) > self.MAX_DEPTH or fi.key in self._stack:
+            raise AnalysisError('R18.a: helper chain through %s too deep / recursive to follow' % fi.qualname)
+        self._stack.append(fi.key)
+        prev = self._cur_fi
+        try:
+            self._scan(fi, ptags, chain)
+        finally:
+            self._stack.pop()
+            self._cur_fi = prev
+
+    def _scan(self, fi, ptags, chain):
+        mod = fi.mod
+        self._cur_fi = fi
+        env = dict((p, set(ts)) for p, ts in ptags.items())
+        nodes = list(_walk(fi))
+        assigns, binders, unpacks = [], [], []
+        for n in nodes:
+            if isinstance(n, ast.Assign) and len(n.targets) == 1 and isinstance(n.targets[0], ast.Name):
+                assigns.append((n.targets[0].id, n.value))
+            elif isinstance(n, ast.Assign) and len(n.targets) == 1 and isinstance(n.targets[0], (ast.Tuple, ast.List)) and \
+                    isinstance(n.value, (ast.Tuple, ast.List)) and len(n.value.elts) == len(n.targets[0].elts) and \
+                    not any(isinstance(x, ast.Starred) for x in n.value.elts + n.targets[0].elts):
+                for t, v in zip(n.targets[0].elts, n.value.elts):       # a, b = x, y
+                    if isinstance(t, ast.Name):
+                        assigns.append((t.id, v))
+            elif isinstance(n, ast.Assign) and len(n.targets) == 1 and isinstance(n.targets[0], (ast.Tuple, ast.List)) and \
+                    len(n.targets[0].elts) == 2 and all(isinstance(x, ast.Name) for x in n.targets[0].elts):
+                unpacks.append(n)
+            elif isinstance(n, ast.AnnAssign) and isinstance(n.target, ast.Name) and n.value is not None:
+                assigns.append((n.target.id, n.value))
+            elif isinstance(n, ast.NamedExpr) and isinstance(n.target, ast.Name):
+                assigns.append((n.target.id, n.value))
+            elif isinstance(n, (ast.For, ast.comprehension)):
+                binders.append(n)
+        sites = {}
+        for _ in range(6):
+            changed = False
+            for name, value in assigns:
+                for t in self.tags(value, env):
+                    if t not in env.setdefault(name, set()):
+                        env[name].add(t)
+                        changed = True
+            for b in binders + unpacks:
+                tg = b.target if not isinstance(b, ast.Assign) else b.targets[0]
+                src = b.iter if not isinstance(b, ast.Assign) else b.value
+                want = 'pair' if isinstance(b, ast.Assign) else 'items'
+                for t in self.tags(src, env):
+                    tg2 = tg
+                    if t[0] == 'enum' and not isinstance(b, ast.Assign) and isinstance(tg, (ast.Tuple, ast.List)) and len(tg.elts) == 2 and \
+                            isinstance(tg.elts[0], ast.Name):
+                        tg2 = tg.elts[1]          # for <number>, (<key>, <val>) in enumerate(<items>)
+                    if (t[0] == want or (t[0] == 'enum' and tg2 is not tg)) and t[1] == 'resources' and \
+                            isinstance(tg2, (ast.Tuple, ast.List)) and len(tg2.elts) == 2 and all(isinstance(x, ast.Name) for x in tg2.elts):
+                        k, v = tg2.elts[0].id, tg2.elts[1].id
+                        site = sites.get(id(b))
+                        if site is None:
+                            site = self._site_of.get(id(b))
+                            if site is None:
+                                site = self._site_of[id(b)] = _Site(fi, src, k, v, want)
+                                site.binder = b
+                                self.sites.append(site)
+                            sites[id(b)] = site
+                        vt = ('val', k, site)
+                        if vt not in env.setdefault(v, set()):
+                            env[v].add(vt)
+                            changed = True
+                    elif t[0] == 'items' and isinstance(tg, ast.Name) and not isinstance(b, ast.Assign):
+                        pt = ('pair', t[1])
+                        if pt not in env.setdefault(tg.id, set()):
+                            env[tg.id].add(pt)
+                            changed = True
+            if not changed:
+                break
+        if not env and not any(self.is_source(n) for n in nodes):
+            return
+        site_targets = set()
+        for b in binders + unpacks:
+            if id(b) in sites:
+                for x in ast.walk(b.target if not isinstance(b, ast.Assign) else b.targets[0]):
+                    site_targets.add(id(x))
+        # key variables must stay what the iteration bound them to
+        keyed = {}
+        for ts in env.values():
+            for t in ts:
+                if t[0] == 'val' and t[1] is not None:
+                    keyed.setdefault((t[1], id(t[2])), t[2])
+        for n in nodes:     # values looked up by name: <resources>[<key>]
+            if isinstance(n, ast.Subscript):
+                for t in self.tags(n, env):
+                    if t[0] == 'val':
+                        keyed.setdefault((t[1], id(t[2])), t[2])
+        for (k, _), site in keyed.items():
+            stores = [n for n in nodes if isinstance(n, ast.Name) and n.id == k and isinstance(n.ctx, (ast.Store, ast.Del))]
+            if site.fi is not fi or k in ptags:
+                pass                                    # the key arrived as a parameter: no store at all is expected
+            elif site.kind == 'items' and site.binder is not None:
+                region = set(id(x) for x in self._region(fi, site.binder))
+                stores = [n for n in stores if id(n) in region and id(n) not in site_targets]
+            elif site.kind == 'lookup':
+                bad = []
+                for n in nodes:
+                    if isinstance(n, ast.Subscript) and any(t[0] == 'val' and t[2] is site for t in self.tags(n, env)):
+                        b = self._binder_of(fi, n, k)
+                        if b is not None:
+                            region = set(id(x) for x in self._region(fi, b))
+                            tg = set(id(x) for x in ast.walk(b.target))
+                            bad.extend(x for x in stores if id(x) in region and id(x) not in tg)
+                        else:
+                            # a plain local / parameter: one binding (none for a parameter) in the whole function
+                            bad.extend(stores if k in fi.params() else stores[1:])
+                stores = list(dict((id(x), x) for x in bad).values())
+            else:
+                stores = [n for n in stores if id(n) not in site_targets]
+            for n in stores:
+                site.rebinds.append((fi, n))
+        # occurrences
+        pending = {}
+        for n in nodes:
+            if not isinstance(n, ast.expr) or isinstance(getattr(n, 'ctx', None), (ast.Store, ast.Del)):
+                continue
+            ts = self.tags(n, env)
+            if not ts:
+                continue
+            if self.is_source(n) and id(n) not in self._source_ids:
+                self._source_ids.add(id(n))
+                self.n_sources += 1
+            for t in sorted(ts, key=lambda t: (t[0], str(t[1]))):
+                if t[0] == 'val':
+                    self._use_of_value(fi, n, t, pending)
+                else:
+                    self._use_of_mapping(fi, n, t, sites, pending)
+        # the redaction marker of each site this function takes part in
+        for (k, _), site in keyed.items():
+            self._markers(fi, k, site, chain, nodes)
+        # closures: a function defined in here reads the tagged locals it does not bind itself
+        closures = {}
+        for n in nodes:
+            if isinstance(n, (ast.FunctionDef, ast.AsyncFunctionDef)):
+                g = mod.func_of_node(n)
+                if g is None:
+                    continue
+                ct = dict((nm, set(env[nm])) for nm in free_names(g) if env.get(nm))
+                if ct:
+                    closures[g.key] = (g, n, ct)
+        called = set()
+        if closures:
+            for n in nodes:
+                if isinstance(n, ast.Call):
+                    callee, _ = resolve_callee(self.repo, fi, n)
+                    if callee is not None and callee.key in closures:
+                        ent = pending.setdefault(id(n), (n, callee, {}))
+                        for nm, ts in closures[callee.key][2].items():
+                            for t in ts:
+                                if t[0] == 'val' and self.polarity(fi, n, t[1]) == -1:
+                                    t[2].use(fi, n, True)     # only called where 'secret' is not in the name
+                                    continue
+                                ent[2].setdefault(nm, set()).add(t)
+                        called.add(callee.key)
+        # follow tagged arguments into the helpers they are passed to
+        for call, callee, ptags2 in pending.values():
+            self.scan(callee, ptags2, chain + ((fi, call),))
+        for key, (g, dn, ct) in closures.items():
+            escapes = any(isinstance(x, ast.Name) and x.id == g.name and isinstance(x.ctx, ast.Load) and
+                          not (isinstance(mod.parents.get(x), ast.Call) and mod.parents.get(x).func is x) for x in nodes)
+            if key not in called or escapes:       # handed around as a callback: judged on its own
+                self.scan(g, ct, chain + ((fi, dn),))
+
+    def _region(self, fi, binder):
+        """The nodes that run with the binder's targets bound: the loop body, or the comprehension around the generator."""
+        if isinstance(binder, ast.For):
+            return [x for st in binder.body for x in ast.walk(st)]
+        if isinstance(binder, ast.comprehension):
+            return list(ast.walk(fi.mod.parents.get(binder)))
+        return list(_walk(fi))
+
+    def _binder_of(self, fi, node, name):
+        """Innermost loop / comprehension generator around ``node`` that binds ``name``."""
+        for l in _loops_around(fi, node):
+            if any(isinstance(x, ast.Name) and x.id == name for x in ast.walk(l.target)):
+                return l
+        return None
+
+    def _transfer(self, fi, node, tag, pending):
+        """``node`` is passed to a helper of the analysed tree: remember the parameter's tag.  False when it is not
+        an argument of a resolvable call."""
+        call = call_of_arg(fi.mod, node)
+        if call is None:
+            return False
+        callee, skip = resolve_callee(self.repo, fi, call)
+        if callee is None:
+            return False
+        b = bind_args(callee, skip, call)
+        if b is None:
+            return False
+        ps = [p for p, x in b.items() if x is node]
+        if len(ps) != 1:
+            return False
+        if tag[0] == 'val':
+            kps = [p for p, x in b.items() if isinstance(x, ast.Name) and x.id == tag[1]] if tag[1] is not None else []
+            tag = ('val', kps[0] if len(kps) == 1 else None, tag[2])
+        elif tag[0] == 'map':
+            tag = ('map', tag[1], False)
+        ent = pending.setdefault(id(call), (call, callee, {}))
+        ent[2].setdefault(ps[0], set()).add(tag)
+        return True
+
+    def _use_of_value(self, fi, n, tag, pending):
+        _, k, site = tag
+        par = fi.mod.parents.get(n)
+        if self.polarity(fi, n, k) == -1:
+            site.use(fi, n, True)
+        elif is_aliased(fi.mod, n) and isinstance(n, (ast.Name, ast.Subscript)):
+            site.use(fi, n, True)      # alias: the new name carries the tag, its uses are judged
+        elif self._transfer(fi, n, tag, pending):
+            site.use(fi, n, True)      # handed to a helper: judged there
+        else:
+            site.use(fi, n, False)
+
+    def _read(self, fi, n, kind, detail=None):
+        if id(n) in self._seen_reads:
+            return
+        self._seen_reads.add(id(n))
+        self.reads.append((fi, n, kind, detail))
+
+    def _use_of_mapping(self, fi, n, tag, sites, pending):
+        mod = fi.mod
+        par = mod.parents.get(n)
+        gp = mod.parents.get(par)
+        what = 'resource' if tag[1] == 'resources' else 'parameter default'
+        kind = None
+        if tag[0] == 'map':
+            if isinstance(par, ast.Compare) and len(par.ops) == 1 and isinstance(par.ops[0], (ast.In, ast.NotIn)) and \
+                    any(n is c for c in par.comparators):
+                kind = 'key membership'
+            elif isinstance(par, ast.Attribute) and par.value is n and isinstance(gp, ast.Call) and gp.func is par:
+                if par.attr == 'keys':
+                    kind = 'keys()'
+                elif par.attr == 'items' and tag[1] == 'resources' and not gp.args and not gp.keywords:
+                    kind = 'items() (judged where it is iterated)'
+                elif par.attr == 'copy' and not gp.args and not gp.keywords:
+                    kind = 'copy (judged where it is used)'
+            elif isinstance(par, ast.Call) and isinstance(par.func, ast.Name) and any(n is a for a in par.args) and \
+                    par.func.id in KEY_ONLY and len(par.args) == 1:
+                kind = '%s()' % par.func.id
+            elif isinstance(par, ast.Call) and isinstance(par.func, ast.Name) and par.func.id == 'dict' and len(par.args) == 1 and \
+                    par.args[0] is n and not par.keywords:
+                kind = 'copy (judged where it is used)'
+            elif isinstance(par, (ast.For, ast.comprehension)) and par.iter is n:
+                kind = 'iteration over the names'
+            elif isinstance(par, ast.Call) and isinstance(par.func, ast.Name) and par.func.id in ('zip', 'enumerate') and not par.keywords and \
+                    any(n is a for a in par.args):
+                kind = '%s() over the names' % par.func.id
+            elif isinstance(par, ast.Subscript) and par.value is n and tag[2] and isinstance(par.ctx, ast.Load) and \
+                    not isinstance(par.slice, ast.Slice) and _fold_str(self.repo, fi, par.slice) is not None:
+                kind = 'own constant key %r of the meta application' % (_fold_str(self.repo, fi, par.slice),)
+            elif isinstance(par, (ast.If, ast.While, ast.IfExp)) and par.test is n:
+                kind = 'emptiness test'
+            elif isinstance(par, ast.UnaryOp) and isinstance(par.op, ast.Not):
+                kind = 'emptiness test'
+            elif isinstance(par, ast.Subscript) and par.value is n and isinstance(par.slice, ast.Name) and tag[1] == 'resources' and \
+                    isinstance(par.ctx, ast.Load) and par.slice.id in _local_names(fi):
+                kind = 'value looked up by name (judged per use of the value)'
+        elif tag[0] == 'pair':
+            if isinstance(par, ast.Assign) and par.value is n and id(par) in sites:
+                kind = 'pair unpacked into (name, value) (judged per use of the value)'
+            elif isinstance(par, ast.Subscript) and par.value is n and isinstance(par.slice, ast.Constant) and par.slice.value == 0 and \
+                    type(par.slice.value) is int and isinstance(par.ctx, ast.Load):
+                kind = 'name of the pair'
+        else:   # items / enum
+            if isinstance(par, (ast.For, ast.comprehension)) and par.iter is n:
+                if id(par) in sites:
+                    kind = 'iteration over (name, value) pairs (judged per use of the value)'
+                elif isinstance(par.target, ast.Name) and tag[1] == 'resources' and tag[0] == 'items':
+                    kind = 'iteration over pairs (judged where the pair is taken apart)'
+            elif tag[0] == 'items' and isinstance(par, ast.Call) and isinstance(par.func, ast.Name) and par.func.id == 'enumerate' and \
+                    len(par.args) == 1 and par.args[0] is n and not par.keywords:
+                kind = 'enumerate() (judged where it is iterated)'
+            elif isinstance(par, ast.Call) and isinstance(par.func, ast.Name) and len(par.args) == 1 and par.args[0] is n:
+                if par.func.id in SEQ_THROUGH and (not par.keywords or (par.func.id == 'sorted' and
+                                                                         all(_names_only_key(k) for k in par.keywords))):
+                    kind = '%s() (judged where it is iterated)' % par.func.id
+                elif par.func.id == 'len' and not par.keywords:
+                    kind = 'len()'
+        if kind is None and is_aliased(mod, n):
+            kind = 'local alias (judged where it is used)'
+        if kind is None and self._transfer(fi, n, tag, pending):
+            kind = 'argument of a helper of meta.py (judged there)'
+        self._read(fi, n, kind, None if kind else
+                   '%s reads %s *values* (%s): %s' % (fi.qualname, what, short(par if isinstance(par, ast.AST) else n),
+                                                     'secrets would be disclosed' if tag[1] == 'resources' else
+                                                     'an arbitrary host object reaches the JSON view (encoder failure => 500 for the whole '
+                                                     'view, or disclosure)'))
+
+    # -- the marker --------------------------------------------------------------------------------------
+    def _markers(self, fi, k, site, chain, nodes):
+        """Constant strings (literals, module-level constants) in value position that are produced exactly where
+        'secret' is known to be in the name, and whether one of them reaches the listing."""
+        mod = fi.mod
+        for n in nodes:
+            if not isinstance(n, (ast.Constant, ast.Name, ast.Attribute, ast.BinOp, ast.JoinedStr)) or \
+                    isinstance(getattr(n, 'ctx', None), (ast.Store, ast.Del)):
+                continue
+            par = mod.parents.get(n)
+            if isinstance(par, ast.Dict) and any(n is x for x in par.keys):
+                continue
+            if isinstance(par, (ast.Subscript, ast.Compare, ast.Attribute, ast.BinOp, ast.JoinedStr, ast.FormattedValue, ast.Expr)):
+                continue
+            if isinstance(par, ast.Call) and par.func is n:
+                continue
+            v = _fold_str(self.repo, fi, n)
+            if not v:
+                continue
+            pol = self.polarity(fi, n, k)
+            if pol != 1 and not (pol == 0 and self._default_marker(fi, n, k, site)):
+                continue
+            site.markers.append((fi, n, v))
+            if self.flows_to_output(fi, n, chain):
+                site.shown = True
+
+    def _default_marker(self, fi, n, k, site):
+        """``n`` is a constant stored unconditionally as the shown value and replaced only where 'secret' is known
+        not to be in the name: ``shown = MARK`` ... ``if 'secret' not in key: shown = ...`` (in the same iteration), or
+        ``table = dict.fromkeys(names, MARK)`` ... ``if 'secret' not in key: table[key] = ...``."""
+        mod = fi.mod
+        par = mod.parents.get(n)
+        if isinstance(par, ast.Assign) and par.value is n and len(par.targets) == 1 and isinstance(par.targets[0], ast.Name):
+            t = par.targets[0].id
+            region = None
+            if site.fi is fi and site.binder is not None and not isinstance(site.binder, ast.Assign):
+                region = set(id(x) for x in self._region(fi, site.binder))
+                if id(par) not in region:
+                    return False          # set once before the loop: a later iteration would see the previous value
+            elif any(isinstance(l, (ast.For, ast.While)) for l in self._stmt_loops(fi, par)) != \
+                    any(isinstance(l, (ast.For, ast.While)) for l in self._stmt_loops(fi, site.where)):
+                return False
+            others = [x for x in _walk(fi) if isinstance(x, ast.Name) and x.id == t and isinstance(x.ctx, (ast.Store, ast.Del)) and
+                      x is not par.targets[0] and (region is None or id(x) in region)]
+            if not others:
+                return False
+            for x in others:
+                st = stmt_of(mod, x)
+                if not (isinstance(st, ast.Assign) and len(st.targets) == 1 and st.targets[0] is x) or self.polarity(fi, st.value, k) != -1:
+                    return False
+            return True
+        if isinstance(par, ast.Call) and norm(par.func) == 'dict.fromkeys' and len(par.args) == 2 and par.args[1] is n and not par.keywords:
+            asg = mod.parents.get(par)
+            if not (isinstance(asg, ast.Assign) and asg.value is par and len(asg.targets) == 1 and isinstance(asg.targets[0], ast.Name)):
+                return False
+            d = asg.targets[0].id
+            if len([x for x in _walk(fi) if isinstance(x, ast.Name) and x.id == d and isinstance(x.ctx, (ast.Store, ast.Del))]) != 1:
+                return False
+            writes = 0
+            for x in _walk(fi):
+                if isinstance(x, ast.Name) and x.id == d and isinstance(x.ctx, ast.Load):
+                    up = mod.parents.get(x)
+                    if isinstance(up, ast.Subscript) and up.value is x and isinstance(up.ctx, ast.Load):
+                        continue          # read of one slot
+                    if isinstance(up, ast.Subscript) and up.value is x and isinstance(up.ctx, ast.Store):
+                        st = mod.parents.get(up)
+                        if isinstance(st, ast.Assign) and len(st.targets) == 1 and st.targets[0] is up and isinstance(up.slice, ast.Name) and \
+                                up.slice.id == k and self.polarity(fi, st.value, k) == -1:
+                            writes += 1
+                            continue
+                    return False          # any other use (update(), a call, an alias): the slots can no longer be followed
+            return writes >= 1
+        return False
+
+    def _stmt_loops(self, fi, node):
+        out, cur = [], node
+        while cur is not None and cur is not fi.node:
+            cur = fi.mod.parents.get(cur)
+            if isinstance(cur, (ast.For, ast.While)):
+                out.append(cur)
+        return out
+
+    def _loads_flow(self, fi, names, skip_stmt, chain, depth):
+        for n in _walk(fi):
+            if isinstance(n, ast.Name) and n.id in names and isinstance(n.ctx, ast.Load) and \
+                    stmt_of(fi.mod, n) is not skip_stmt and self.flows_to_output(fi, n, chain, depth + 1):
+                return True
+        return False
+
+    def flows_to_output(self, fi, node, chain, depth=0):
+        """The value of ``node`` becomes (part of) an element of the listing: it is appended / yielded / the element of
+        a comprehension, possibly through a local, a container display or the return value of the helper."""
+        if depth > 5:
+            return False
+        mod = fi.mod
+        cur = node
+        while cur is not None and cur is not fi.node:
+            par = mod.parents.get(cur)
+            if isinstance(par, ast.Call) and call_tail(par) in ('append', 'extend', 'add', 'insert') and any(cur is a for a in par.args):
+                return True
+            if isinstance(par, (ast.ListComp, ast.SetComp, ast.GeneratorExp)) and par.elt is cur:
+                return True
+            if isinstance(par, ast.DictComp) and par.value is cur:
+                return True
+            if isinstance(par, (ast.Yield, ast.YieldFrom)):
+                return True
+            if isinstance(par, (ast.Call, ast.keyword)):
+                # stored into a local container: row.update(value=..) / row.setdefault('value', ..)
+                c = par if isinstance(par, ast.Call) else mod.parents.get(par)
+                if isinstance(c, ast.Call) and isinstance(c.func, ast.Attribute) and c.func.attr in ('update', 'setdefault') and \
+                        isinstance(mod.parents.get(c), ast.Expr) and _root_name(c.func.value) is not None:
+                    return self._loads_flow(fi, {_root_name(c.func.value)}, mod.parents.get(c), chain, depth)
+            if isinstance(par, ast.stmt):
+                if isinstance(par, (ast.Assign, ast.AnnAssign, ast.AugAssign)) and par.value is cur:
+                    names = set()
+                    for t in (par.targets if isinstance(par, ast.Assign) else [par.target]):
+                        while isinstance(t, (ast.Subscript, ast.Attribute)):
+                            t = t.value
+                        if isinstance(t, ast.Name):
+                            names.add(t.id)
+                    return self._loads_flow(fi, names, par, chain, depth)
+                if isinstance(par, ast.Return) and par.value is cur:
+                    if chain:
+                        cfi, call = chain[-1]
+                        return self.flows_to_output(cfi, call, chain[:-1], depth + 1)
+                    return True
+                return False
+            cur = par
+        return False
+
+
+class _LambdaInfo(object):
+    """A lambda outside any function (module-level tables of predicates), presented like a function."""
+
+    def __init__(self, mod, lam, qualname):
+        self.mod, self.qualname, self.cls = mod, qualname, None
+        self.node = ast.FunctionDef(name='<lambda>', args=lam.args, body=[ast.copy_location(ast.Return(value=lam.body), lam)],
+                                    decorator_list=[], returns=None, type_comment=None)
+        ast.copy_location(self.node, lam)
+        self.name = '<lambda>'
+        self.key = '%s::%s' % (mod.name, qualname)
+
+    def params(self):
+        a = self.node.args
+        return [x.arg for x in a.posonlyargs + a.args + a.kwonlyargs]
+
+
+def _toplevel_lambdas(mod):
+    out, count = [], {}
+    for st in mod.tree.body:
+        if isinstance(st, (ast.FunctionDef, ast.AsyncFunctionDef)):
+            continue
+        for n in ast.walk(st):
+            if isinstance(n, ast.Lambda) and mod.enclosing_function(n) is None:
+                owner = norm(st.targets[0]) if isinstance(st, ast.Assign) else (st.name if isinstance(st, ast.ClassDef) else '<module>')
+                i = count[owner] = count.get(owner, 0) + 1
+                out.append(_LambdaInfo(mod, n, '%s.<lambda#%d>' % (owner, i)))
+    return out
+
+
+def _r18a(rep, repo, meta):
+    tn = _Taint(repo, meta)
+    for fi in list(meta.functions.values()) + _toplevel_lambdas(meta):
+        tn.scan(fi, {})
+    n_res = sum(1 for fi, n, _, _ in tn.reads if isinstance(n, ast.Attribute) and n.attr == 'resources')
+    if n_res < 3:
+        raise AnalysisError('meta.py: only %d reads of .resources found (floor 3)' % n_res)
+    seen = set(id(n) for _, n, _, _ in tn.reads)
+    stray = [n for n in ast.walk(meta.tree) if tn.is_source(n) and id(n) not in seen]
+    if stray:
+        raise AnalysisError('meta.py: %d read(s) of a sensitive mapping outside the analysed function bodies (first: line %s, %s)'
+                            % (len(stray), getattr(stray[0], 'lineno', '?'), short(stray[0], 60)))
+    # every occurrence of a sensitive mapping (resources, endpoint parameter defaults): names only
+    for i, (fi, n, kind, detail) in enumerate(tn.reads):
+        rep.check('R18.a', fkey(fi, n) + '#' + str(i), kind is not None,
+                  'read of %s is %s' % (short(n, 50), kind) if kind else detail, meta, n)
+    # every iteration over (name, value) pairs of a resources mapping
+    per_fn = {}
+    for site in tn.sites:
+        fi = site.fi
+        i = per_fn[fi.key] = per_fn.get(fi.key, -1) + 1
+        sfx = '' if i == 0 else '#%d' % i
+        kv, vv = site.kname, site.vname
+        rb = site.rebinds
+        rep.check('R18.a', fkey(fi, 'key variable intact') + sfx, not rb,
+                  "the 'secret' test looks at the resource name itself" if not rb else
+                  'the key variable %s is re-bound (truncated / transformed) in %s: the "secret" decision is made on '
+                  'something else than the resource name' % (kv, rb[0][0].qualname), meta, rb[0][1] if rb else site.where)
+        ok = not site.bad and bool(site.markers) and bool(site.uses)
+        rep.check('R18.a', fkey(fi, 'items() loop') + sfx, ok,
+                  "the value variable %s is evaluated only where ('secret' in %s) is false (%d uses); the other branch yields the constant %r"
+                  % (vv, kv, len(site.uses), site.markers[0][2] if site.markers else None) if ok else
+                  'a resource value is used without the "secret" test being false (%d unguarded uses%s) or no redaction marker is produced'
+                  % (len(site.bad), ', first in %s: %s' % (site.bad[0][0].qualname, short(fi.mod.parents.get(site.bad[0][1]), 60)) if site.bad else ''),
+                  meta, site.bad[0][1] if site.bad else site.where)
+        ok2 = site.shown and not site.bad
+        rep.check('R18.a', fkey(fi, 'output value') + sfx, ok2,
+                  'the listed value is the branch result (marker %r for secret names), never the raw value'
+                  % (site.markers[0][2] if site.markers else None) if ok2 else
+                  ('the raw resource value is put into the output' if site.bad else
+                   'the redaction marker does not reach the listing'), meta, site.bad[0][1] if site.bad else site.where)
+    if not tn.sites and all(k is not None for _, _, k, _ in tn.reads):
+        raise AnalysisError('meta.py: no iteration over the (name, value) pairs of a .resources mapping found (the resource listing '
+                            'could not be located)')
+    # contexts never hold framework objects themselves
+    ctx = _context_functions(repo, meta)
+    objs = _object_names(repo, ctx)
+    n_vals = 0
+    for fi in ctx:
+        for n in walk_body(fi.node):
+            vals = []
+            if isinstance(n, ast.Dict):
+                vals = list(n.values)
+            elif isinstance(n, ast.Assign) and isinstance(n.targets[0], ast.Subscript):
+                vals = [n.value]
+            elif isinstance(n, ast.Assign) and isinstance(n.targets[0], (ast.Tuple, ast.List)) and isinstance(n.value, (ast.Tuple, ast.List)) and \
+                    len(n.targets[0].elts) == len(n.value.elts):
+                vals = [v for t, v in zip(n.targets[0].elts, n.value.elts) if isinstance(t, ast.Subscript)]
+            elif isinstance(n, ast.Call) and call_name(n) == 'dict':
+                vals = [k.value for k in n.keywords]
+            elif isinstance(n, ast.Call) and isinstance(n.func, ast.Attribute) and n.func.attr in ('append', 'insert', 'add') and \
+                    _root_name(n.func.value) in _returned_names(fi):
+                vals = list(n.args[-1:])      # an element of a list (inside) what the function returns
+            elif isinstance(n, (ast.ListComp, ast.SetComp, ast.GeneratorExp)) and _is_returned(fi, n):
+                vals = [n.elt]
+            elif isinstance(n, ast.DictComp) and _is_returned(fi, n):
+                vals = [n.value]
+            for v in vals:
+                n_vals += 1
+                if isinstance(v, ast.Name) and v.id in objs[fi.key]:
+                    rep.fail('R18.a', fkey(fi, 'context value ' + v.id), 'the %s object itself is stored in a page context: the JSON view would '
+                             'traverse it (resources, secret keys)' % v.id, meta, v)
+    rep.ok('R18.a', '%s::context values' % META, '%d values stored in peripheral contexts (%d functions); none is an application/route/'
+           'middleware/request object' % (n_vals, len(ctx)), meta)
+    rep.floor('R18.a', 5)
+
+
+def _root_name(e):
+    """Root local of ``x.a[k].setdefault(..)``-style receiver chains."""
+    while True:
+        if isinstance(e, (ast.Attribute, ast.Subscript)):
+            e = e.value
+        elif isinstance(e, ast.Call):
+            e = e.func
+        else:
+            return e.id if isinstance(e, ast.Name) else None
+
+
+def _returned_names(fi):
+    """Locals mentioned in a return / yield value of the function, and the locals whose value is stored in one of them
+    (``out = tmp`` / ``out[k] = tmp`` / ``out.append(tmp)`` with ``out`` returned)."""
+    c = getattr(fi, '_c18_returned', None)
+    if c is None:
+        c = set(x.id for r in walk_body(fi.node) if isinstance(r, (ast.Return, ast.Yield, ast.YieldFrom)) and r.value is not None
+                for x in ast.walk(r.value) if isinstance(x, ast.Name))
+        for _ in range(4):
+            before = len(c)
+            for st in stmts_of(fi.node):
+                if isinstance(st, (ast.Assign, ast.AugAssign, ast.AnnAssign)) and st.value is not None:
+                    tgts = st.targets if isinstance(st, ast.Assign) else [st.target]
+                    if any(_root_name(t) in c for t in tgts):
+                        c |= set(x.id for x in ast.walk(st.value) if isinstance(x, ast.Name))
+            if len(c) == before:
+                break
+        fi._c18_returned = c
+    return c
+
+
+def _is_returned(fi, node):
+    """The container built by ``node`` is (part of) what the function returns: directly, inside a display, through a
+    list()/sorted()/... copy, or through a local that is returned."""
+    mod = fi.mod
+    cur = node
+    while True:
+        par = mod.parents.get(cur)
+        if isinstance(par, (ast.Dict, ast.List, ast.Tuple, ast.Set, ast.Starred, ast.IfExp, ast.BoolOp)):
+            cur = par
+        elif isinstance(par, ast.Call) and isinstance(par.func, ast.Name) and par.func.id in ('list', 'tuple', 'sorted', 'dict', 'set', 'reversed') \
+                and any(cur is a for a in par.args):
+            cur = par
+        elif isinstance(par, ast.keyword) and isinstance(mod.parents.get(par), ast.Call) and call_name(mod.parents.get(par)) == 'dict':
+            cur = mod.parents.get(par)
+        elif isinstance(par, ast.Return):
+            return True
+        elif isinstance(par, (ast.Assign, ast.AugAssign, ast.AnnAssign)):
+            names = set()
+            for t in (par.targets if isinstance(par, ast.Assign) else [par.target]):
+                while isinstance(t, (ast.Subscript, ast.Attribute)):
+                    t = t.value
+                if isinstance(t, ast.Name):
+                    names.add(t.id)
+            return bool(names & _returned_names(fi))
+        elif isinstance(par, ast.Call) and isinstance(par.func, ast.Attribute) and par.func.attr in ('append', 'extend', 'insert', 'add', 'update') and \
+                isinstance(par.func.value, ast.Name) and any(cur is a for a in par.args):
+            return par.func.value.id in _returned_names(fi)
+        else:
+            return False
+
+
+def _context_functions(repo, meta):
+    """The functions that build peripheral contexts: every ``get_context`` (methods, and functions installed under
+    that name), the listing functions, and the helpers of meta.py they call."""
+    out, todo = [], []
+    for q, fi in meta.functions.items():
+        if fi.name == 'get_context' or q in ('get_route_infos', 'get_resource_info', 'get_mw_infos', 'get_endpoint_info',
+                                             'get_render_info', 'get_route_arg_info'):
+            todo.append(fi)
+    for c in meta.classes.values():
+        v = c.class_attrs.get('get_context')
+        if isinstance(v, ast.Call) and call_name(v) in ('staticmethod', 'classmethod') and v.args and isinstance(v.args[0], ast.Name):
+            f = meta.functions.get(v.args[0].id)
+            if f is not None:
+                todo.append(f)
+    seen = set()
+    while todo:
+        fi = todo.pop()
+        if fi.key in seen:
+            continue
+        seen.add(fi.key)
+        out.append(fi)
+        for n in walk_body(fi.node):
+            if isinstance(n, ast.Call):
+                callee, _ = resolve_callee(repo, fi, n)
+                if callee is not None and callee.mod is meta and callee.key not in seen:
+                    todo.append(callee)
+    return sorted(out, key=lambda f: f.key)
+
+
+def _object_names(repo, ctx):
+    """Per context function: the locals that hold an application / route / middleware / request object itself -- the
+    conventional names, plus aliases, loop variables over ``<object>.routes`` / ``.middlewares`` / ``.peripherals`` (also
+    when that list is named first or handed to a helper) and the parameters of helpers such a local is passed to."""
+    objs = dict((fi.key, set(OBJECT_NAMES)) for fi in ctx)
+    colls = dict((fi.key, set()) for fi in ctx)       # locals that hold a list of such objects
+    by_key = dict((fi.key, fi) for fi in ctx)
+
+    def unwrap(e):
+        while isinstance(e, ast.Call) and isinstance(e.func, ast.Name) and e.func.id in SEQ_THROUGH | {'enumerate'} and e.args:
+            e = e.args[0]
+        return e
+    for _ in range(8):
+        changed = False
+        for fi in ctx:
+            cur, cl = objs[fi.key], colls[fi.key]
+
+            def is_coll(e):
+                e = unwrap(e)
+                return (isinstance(e, ast.Attribute) and e.attr in ('routes', 'middlewares', 'peripherals') and
+                        isinstance(e.value, ast.Name) and e.value.id in cur) or (isinstance(e, ast.Name) and e.id in cl)
+            for n in walk_body(fi.node):
+                new = None
+                if isinstance(n, ast.Assign) and len(n.targets) == 1 and isinstance(n.targets[0], ast.Name):
+                    if isinstance(n.value, ast.Name) and n.value.id in cur:
+                        new = n.targets[0].id
+                    elif is_coll(n.value) and n.targets[0].id not in cl:
+                        cl.add(n.targets[0].id)
+                        changed = True
+                elif isinstance(n, (ast.For, ast.comprehension)) and is_coll(n.iter):
+                    tg = n.target
+                    if isinstance(tg, (ast.Tuple, ast.List)) and len(tg.elts) == 2 and isinstance(n.iter, ast.Call) and call_name(n.iter) == 'enumerate':
+                        tg = tg.elts[1]
+                    if isinstance(tg, ast.Name):
+                        new = tg.id
+                elif isinstance(n, ast.Call):
+                    callee, skip = resolve_callee(repo, fi, n)
+                    if callee is not None and callee.key in by_key:
+                        b = bind_args(callee, skip, n) or {}
+                        for p, x in b.items():
+                            if isinstance(x, ast.Name) and x.id in cur and p not in objs[callee.key]:
+                                objs[callee.key].add(p)
+                                changed = True
+                            elif is_coll(x) and p not in colls[callee.key]:
+                                colls[callee.key].add(p)
+                                changed = True
+                if new is not None and new not in cur:
+                    cur.add(new)
+                    changed = True
+        if not changed:
+            break
+    return objs
+
+
+# ------------------------------------------------------------------------------------------ R18.b
+def _mw_reads(repo, fi, scope_nodes, mv, attrs, depth=0):
+    """What is read from the middleware held by local ``mv`` in the given nodes (followed into helpers of the tree
+    the middleware is handed to)."""
+    for n in scope_nodes:
+        if isinstance(n, ast.Attribute) and isinstance(n.value, ast.Name) and n.value.id == mv:
+            attrs.add(n.attr)
+        if isinstance(n, ast.Call) and call_name(n) in ('vars', 'getattr', 'dir') and n.args and norm(n.args[0]) == mv:
+            attrs.add('<%s>' % call_name(n))
+        if isinstance(n, ast.Call) and depth < 3:
+            callee, skip = resolve_callee(repo, fi, n)
+            if callee is None:
+                continue
+            b = bind_args(callee, skip, n)
+            if b is None:
+                if any(isinstance(x, ast.Name) and x.id == mv for x in ast.walk(n)):
+                    attrs.add('<%s(...)>' % short(n.func, 30))
+                continue
+            for p, x in b.items():
+                if isinstance(x, ast.Name) and x.id == mv:
+                    _mw_reads(repo, callee, list(walk_body(callee.node)), p, attrs, depth + 1)
+
+
+def _single_assignment(fi, name):
+    """The value of local ``name`` when it is assigned exactly once in the function (and is not a parameter)."""
+    if name in fi.params():
+        return None
+    srcs = [s.value for s in stmts_of(fi.node) if isinstance(s, ast.Assign) and len(s.targets) == 1 and
+            isinstance(s.targets[0], ast.Name) and s.targets[0].id == name]
+    stores = [n for n in ast.walk(fi.node) if isinstance(n, ast.Name) and n.id == name and isinstance(n.ctx, (ast.Store, ast.Del))]
+    return srcs[0] if len(srcs) == 1 and len(stores) == 1 else None
+
+
+def _mw_scopes(repo, fi, coll_names, depth=0, seen=None):
+    """[(function, nodes, local)]: the places where one middleware of the application's list is held by ``local`` --
+    the body of a loop / the element of a comprehension over the list, the function mapped over it, followed into the
+    helpers of the tree the list is handed to."""
+    def unwrap(e):
+        while True:
+            if isinstance(e, ast.Call) and isinstance(e.func, ast.Name) and e.func.id in ('enumerate', 'list', 'tuple', 'reversed', 'sorted', 'iter') and e.args:
+                e = e.args[0]
+            elif isinstance(e, ast.Subscript) and isinstance(e.slice, ast.Slice):
+                e = e.value
+            else:
+                return e
+
+    def is_coll(e, d=0):
+        e = unwrap(e)
+        if isinstance(e, ast.Attribute) and e.attr == 'middlewares':
+            return True
+        if isinstance(e, ast.Name):
+            if e.id in coll_names:
+                return True
+            v = _single_assignment(fi, e.id) if d < 3 else None
+            return v is not None and is_coll(v, d + 1)
+        return False
+
+    def element_name(b):
+        if isinstance(b.target, ast.Name):
+            return b.target.id
+        if isinstance(b.target, (ast.Tuple, ast.List)) and len(b.target.elts) == 2 and isinstance(b.target.elts[1], ast.Name) and \
+                isinstance(b.iter, ast.Call) and call_name(b.iter) == 'enumerate':
+            return b.target.elts[1].id
+        return None
+    out = []
+    seen = set() if seen is None else seen
+    if depth > 3 or (fi.key, tuple(sorted(coll_names))) in seen:
+        return out
+    seen.add((fi.key, tuple(sorted(coll_names))))
+    mod = fi.mod
+    for n in walk_body(fi.node):
+        if isinstance(n, (ast.For, ast.comprehension)) and is_coll(n.iter):
+            mv = element_name(n)
+            if mv is None:
+                raise AnalysisError('%s: loop over the middlewares with an unrecognised target (%s)' % (fi.qualname, short(n.target, 40)))
+            if isinstance(n, ast.For):
+                scope = [x for s in n.body + n.orelse for x in ast.walk(s)]
+            else:
+                comp = mod.parents.get(n)
+                scope = [x for x in ast.walk(comp) if not any(x is y for y in ast.walk(n.iter))]
+            out.append((fi, scope, mv))
+        elif isinstance(n, ast.Call) and call_name(n) == 'map' and len(n.args) == 2 and not n.keywords and is_coll(n.args[1]):
+            f = n.args[0]
+            if isinstance(f, ast.Lambda) and len(f.args.args) == 1:
+                out.append((fi, list(ast.walk(f.body)), f.args.args[0].arg))
+                continue
+            if isinstance(f, ast.Name) and f.id in _local_names(fi):     # a local that names the function
+                v = _single_assignment(fi, f.id)
+                f = v if v is not None else f
+            callee, skip = resolve_callee(repo, fi, ast.Call(func=f, args=[], keywords=[]))
+            ps = callee.params()[skip:] if callee is not None else []
+            if not ps:
+                raise AnalysisError('%s: function mapped over the middlewares cannot be resolved (%s)' % (fi.qualname, short(f, 40)))
+            out.append((callee, list(walk_body(callee.node)), ps[0]))
+        elif isinstance(n, ast.Call):
+            callee, skip = resolve_callee(repo, fi, n)
+            if callee is None:
+                continue
+            b = bind_args(callee, skip, n)
+            passed = [p for p, x in (b or {}).items() if is_coll(x)]
+            for p in passed:
+                out.extend(_mw_scopes(repo, callee, {p}, depth + 1, seen))
+            if not passed and callee.mod is mod:
+                # the helper may be handed the application and iterate its middlewares itself
+                out.extend(_mw_scopes(repo, callee, set(), depth + 1, seen))
+    return out
+
+
+def _self_reads(repo, fi, me, depth=0):
+    """(attribute names read from the object held by ``me``, reads whose name is not known statically) in ``fi`` and in
+    the methods / functions of the tree the object is handed to."""
+    attrs, wide = set(), []
+    for n in walk_body(fi.node):
+        if isinstance(n, ast.Attribute) and isinstance(n.value, ast.Name) and n.value.id == me:
+            if n.attr == '__dict__':
+                wide.append('__dict__')
+            else:
+                attrs.add(n.attr)
+        elif isinstance(n, ast.Call) and call_name(n) in ('vars', 'dir') and n.args and norm(n.args[0]) == me:
+            wide.append('%s()' % call_name(n))
+        elif isinstance(n, ast.Call) and call_name(n) in ('getattr', 'hasattr') and len(n.args) >= 2 and norm(n.args[0]) == me:
+            nm = repo.try_fold(n.args[1], fi.mod)
+            if isinstance(nm, str) and not (isinstance(n.args[1], ast.Name) and n.args[1].id in _local_names(fi)):
+                attrs.add(nm)
+            elif call_name(n) == 'getattr':
+                wide.append('getattr(%s, %s)' % (me, short(n.args[1], 30)))
+        if isinstance(n, ast.Call) and depth < 2:
+            callee, skip = resolve_callee(repo, fi, n)
+            if callee is None or callee.name in ('__repr__', '__str__', '__init__'):
+                continue
+            if skip == 1 and isinstance(n.func, ast.Attribute) and isinstance(n.func.value, ast.Name) and n.func.value.id == me:
+                a, w = _self_reads(repo, callee, (callee.params() or [me])[0], depth + 1)
+                attrs |= a
+                wide += w
+            b = bind_args(callee, skip, n) or {}
+            for p, x in b.items():
+                if isinstance(x, ast.Name) and x.id == me:
+                    a, w = _self_reads(repo, callee, p, depth + 1)
+                    attrs |= a
+                    wide += w
+    return attrs, wide
+
+
+def _r18b(rep, repo, meta):
+    gm = meta.func('get_mw_infos')
+    scopes = _mw_scopes(repo, gm, set())
+    if len(scopes) != 1:
+        raise AnalysisError('get_mw_infos: %d iterations over the middlewares found (one expected)' % len(scopes))
+    sf, scope, mv = scopes[0]
+    attrs = set()
+    _mw_reads(repo, sf, scope, mv, attrs)
+    ok = attrs <= MW_ATTRS
+    rep.check('R18.b', fkey(gm, 'attributes read'), ok, 'only %s (and repr(mw)) are read from a middleware' % sorted(attrs) if ok else
+              'get_mw_infos reads %s from middlewares' % sorted(attrs - MW_ATTRS), meta, gm.node)
+    mwbase = repo.mod('clastic.middleware.core').cls('Middleware')
+    n_repr = 0
+    for m in repo.all_internal_modules():
+        for c in m.classes.values():
+            if mwbase not in repo.mro(c):
+                continue
+            for nm in ('__repr__', '__str__'):
+                r = c.methods.get(nm)
+                if r is None:
+                    continue
+                n_repr += 1
+                me = (r.params() or ['self'])[0]
+                read, wide = _self_reads(repo, r, me)
+                read = sorted(read)
+                bad = [a for a in read if 'secret' in a.lower() or a.lower() in ('key', 'secret_key', 'signing_key', 'password') or a.lower().endswith('_key')]
+                rep.check('R18.b', fkey(r), not bad and not wide, '%s.%s shows %s' % (c.name, nm, read) if not bad and not wide else
+                          '%s.%s exposes %s (shown on the meta page for every visitor)' % (c.name, nm, bad or sorted(set(wide))), m, r.node)
+    if n_repr < 3:
+        raise AnalysisError('only %d middleware __repr__ methods found (floor 3)' % n_repr)
+    rep.floor('R18.b', 4)
+
+
+# ------------------------------------------------------------------------------------------ R18.c
+def _is_inject(fi, call):
+    """``inject(..)``, or a call of a local that names it: ``call = inject`` / ``call = partial(inject, ..)``."""
+    f = call.func
+    if call_name(call) == 'inject':
+        return True
+    if isinstance(f, ast.Name) and f.id in _local_names(fi):
+        v = _single_assignment(fi, f.id)
+        if isinstance(v, ast.Name) and v.id == 'inject':
+            return True
+        if isinstance(v, ast.Call) and norm(v.func) in ('partial', 'functools.partial') and v.args and norm(v.args[0]) == 'inject':
+            return True
+    return False
+
+
+def _callees_of(repo, fi, call):
+    """The functions of the tree a call may run: the callee itself, or -- for a call of a local that holds a function --
+    every function the local is bound to (``f = self.a if cond else self.b`` ... ``f(x)``)."""
+    callee, _ = resolve_callee(repo, fi, call)
+    if callee is not None:
+        return [callee]
+    f = call.func
+    out = []
+    if isinstance(f, ast.Name) and f.id in _local_names(fi) and f.id not in fi.params():
+        vals = [s.value for s in stmts_of(fi.node) if isinstance(s, ast.Assign) and len(s.targets) == 1 and
+                isinstance(s.targets[0], ast.Name) and s.targets[0].id == f.id]
+        todo = list(vals)
+        while todo:
+            v = todo.pop()
+            if isinstance(v, ast.IfExp):
+                todo += [v.body, v.orelse]
+            elif isinstance(v, (ast.Name, ast.Attribute)):
+                g, _ = resolve_callee(repo, fi, ast.Call(func=v, args=[], keywords=[]))
+                if g is not None:
+                    out.append(g)
+    return out
+
+
+def _run_sites(repo, fi, node, chain, depth=0):
+    """[(function, node, chain)]: where the code at ``node`` effectively runs.  Code in a lambda runs where the lambda is
+    called: on the spot for ``(lambda: ..)()``, or in the helper of the tree the lambda is handed to, at each call of
+    the parameter that receives it.  [] when that cannot be told."""
+    mod = fi.mod
+    cur = node
+    while cur is not None and cur is not fi.node:
+        par = mod.parents.get(cur)
+        if isinstance(par, ast.Lambda):
+            up = mod.parents.get(par)
+            if isinstance(up, ast.Call) and up.func is par:
+                cur = up
+                continue
+            if isinstance(up, ast.Assign) and up.value is par and len(up.targets) == 1 and isinstance(up.targets[0], ast.Name) and depth < 3 and \
+                    _single_assignment(fi, up.targets[0].id) is par:
+                # the lambda is named first: it runs where the name is called
+                out, t = [], up.targets[0].id
+                uses = [x for x in _walk(fi) if isinstance(x, ast.Name) and x.id == t and isinstance(x.ctx, ast.Load)]
+                for x in uses:
+                    c2 = mod.parents.get(x)
+                    if not (isinstance(c2, ast.Call) and c2.func is x):
+                        return []         # handed on: not followed
+                    out.extend(_run_sites(repo, fi, c2, chain, depth + 1))
+                return out
+            call = call_of_arg(mod, par)
+            if call is not None and depth < 3:
+                callee, skip = resolve_callee(repo, fi, call)
+                b = bind_args(callee, skip, call) if callee is not None else None
+                ps = [p for p, x in (b or {}).items() if x is par]
+                if ps:
+                    out = []
+                    for c2 in walk_body(callee.node):
+                        if isinstance(c2, ast.Call) and isinstance(c2.func, ast.Name) and c2.func.id == ps[0]:
+                            out.extend(_run_sites(repo, callee, c2, chain + ((fi, call),), depth + 1))
+                    return out
+            return []
+        cur = par
+    return [(fi, node, chain)]
+
+
+def _inject_calls(repo, fi, wanted, chain=(), seen=None):
+    """[(function, inject call, chain of (caller, call))] for the ``inject(<peripheral>.<method>, ..)`` calls (method in
+    ``wanted``) in ``fi`` and in the functions of the tree it calls."""
+    seen = set() if seen is None else seen
+    if fi.key in seen or len(chain) > 3:
+        return []
+    seen.add(fi.key)
+    out = []
+    for c in _walk(fi):
+        if not isinstance(c, ast.Call):
+            continue
+        if _is_inject(fi, c) and c.args:
+            target = c.args[0]
+            if isinstance(target, ast.Name):     # the bound method may be named first
+                srcs = [s.value for s in stmts_of(fi.node) if isinstance(s, ast.Assign) and len(s.targets) == 1 and
+                        isinstance(s.targets[0], ast.Name) and s.targets[0].id == target.id]
+                if len(srcs) == 1:
+                    target = srcs[0]
+            if isinstance(target, ast.Attribute) and target.attr in wanted:
+                out.append((fi, c, chain))
+                continue
+        for callee in _callees_of(repo, fi, c):
+            if callee.mod is fi.mod and callee.name not in ('get_main', 'render_main_page_html'):
+                out.extend(_inject_calls(repo, callee, wanted, chain + ((fi, c),), seen))
+    return out
+
+
+def _indexes_into(repo, fi, nodes, name, depth=0):
+    """Subscript loads whose base is the object held by local ``name`` or an attribute of it (``e.args[0]``), in the given
+    nodes and in the helpers of the tree the object is handed to."""
+    out = []
+    for n in nodes:
+        if isinstance(n, ast.Subscript) and isinstance(n.ctx, ast.Load):
+            b = n.value
+            while isinstance(b, ast.Attribute):
+                b = b.value
+            if isinstance(b, ast.Name) and b.id == name:
+                out.append(n)
+        elif isinstance(n, ast.Call) and depth < 2:
+            callee, skip = resolve_callee(repo, fi, n)
+            if callee is None:
+                continue
+            for p, x in (bind_args(callee, skip, n) or {}).items():
+                if isinstance(x, ast.Name) and x.id == name:
+                    out.extend(_indexes_into(repo, callee, list(walk_body(callee.node)), p, depth + 1))
+    return out
+
+
+def _is_generator(fi):
+    return any(isinstance(n, (ast.Yield, ast.YieldFrom)) for n in walk_body(fi.node))
+
+
+def _consumed_in_place(fi, call):
+    """The iterable made by ``call`` is exhausted right where it is made: ``list(call)``, ``d.update(call)``, ``for .. in call``."""
+    par = fi.mod.parents.get(call)
+    if isinstance(par, ast.For) and par.iter is call:
+        return False      # (the body of the loop is then inside the iteration, but the try has to be around the loop)
+    if isinstance(par, ast.Call) and any(call is a for a in par.args):
+        if isinstance(par.func, ast.Name) and par.func.id in ('list', 'tuple', 'dict', 'set', 'sorted', 'frozenset', 'sum', 'any', 'all', 'max', 'min'):
+            return True
+        if isinstance(par.func, ast.Attribute) and par.func.attr in ('update', 'extend', 'join'):
+            return True
+    return False
+
+
+def _substitutes(fi, h, in_helper):
+    """The handler records something in place of the failed result: it binds / updates a local (``x = ..``, ``x[k] = ..``,
+    ``x.update(..)``, ...) or, in a helper, returns the placeholder; or it does nothing because the placeholder was
+    stored right before the try statement (``items = []`` / ``try: items = ..`` / ``except Exception: pass``)."""
+    if all(isinstance(s, ast.Pass) for s in h.body):
+        mod = fi.mod
+        tr = mod.parents.get(h)
+        holder = mod.parents.get(tr)
+        set_in_try = set(n.id for st in tr.body + tr.orelse for n in ast.walk(st) if isinstance(n, ast.Name) and isinstance(n.ctx, ast.Store))
+        for fld in ('body', 'orelse', 'finalbody'):
+            block = getattr(holder, fld, None)
+            if isinstance(block, list) and any(tr is x for x in block):
+                for st in block:
+                    if st is tr:
+                        break
+                    if isinstance(st, ast.Assign) and any(isinstance(t, ast.Name) and t.id in set_in_try for t in st.targets):
+                        return True
+        return False
+    for s in h.body:
+        if isinstance(s, (ast.Assign, ast.AugAssign, ast.AnnAssign)):
+            return True
+        if isinstance(s, ast.Expr) and isinstance(s.value, ast.Call) and isinstance(s.value.func, ast.Attribute) and \
+                s.value.func.attr in ('update', 'setdefault', 'append', 'extend', 'insert', 'add') and (s.value.args or s.value.keywords):
+            return True
+        if in_helper and isinstance(s, ast.Return) and s.value is not None and not (isinstance(s.value, ast.Constant) and s.value.value is None):
+            return True
+    return False
+
+
+def _r18c(rep, repo, meta):
+    gmn = meta.func('MetaApplication.get_main')
+    rmp = meta.func('MetaApplication.render_main_page_html')
+    for anchor, wanted, floor in ((gmn, ('get_context',), 1), (rmp, ('render_main_page_html', 'get_general_items'), 2)):
+        inj = _inject_calls(repo, anchor, wanted)
+        if len(inj) < floor:
+            raise AnalysisError('%s: %d inject calls of %s found (floor %d)' % (anchor.qualname, len(inj), '/'.join(wanted), floor))
+        placed = []
+        for fi, c, chain in inj:
+            sites = _run_sites(repo, fi, c, chain)
+            if not sites:
+                raise AnalysisError('%s: %s is made from a lambda whose place of execution cannot be followed' % (anchor.qualname, short(c, 60)))
+            placed.extend((sfi, c, snode, schain) for sfi, snode, schain in sites)
+        for fi, c, node, chain in placed:
+            # the handler may sit around the call itself or around the call of the helper that makes it
+            links = list(chain) + [(fi, node)]          # outermost first
+            h, hj, hf = None, None, None
+            for j in range(len(links) - 1, -1, -1):
+                if j < len(links) - 1 and _is_generator(links[j + 1][0]) and not _consumed_in_place(links[j][0], links[j][1]):
+                    break      # the call only creates the generator: its body runs wherever it is consumed
+                h = protected_by(links[j][0], links[j][1], 'Exception')
+                if h is not None:
+                    hj, hf = j, links[j][0]
+                    break
+            in_helper = hf is not anchor
+            ok = h is not None and not any(isinstance(r, ast.Raise) for r in ast.walk(h)) and _substitutes(hf, h, in_helper)
+            if ok and not in_helper and any(isinstance(s, (ast.Return, ast.Break)) for s in ast.walk(h)):
+                ok = False      # leaving the loop from the handler drops the remaining sections
+            rep.check('R18.c', fkey(anchor, c), ok, 'a failing peripheral is replaced by a placeholder (handler: except %s%s)'
+                      % (norm(h.type) if h else None, ' in %s' % hf.qualname if h is not None and in_helper else '') if ok else
+                      'a failing peripheral call %s fails the whole meta page' % short(c), meta, c)
+            if h is not None and h.name:
+                # the placeholder is built from the repr / type of the exception, never by indexing into it (``e.args``
+                # may be empty): the handler itself must not be able to fail on the exception it reports
+                idx = _indexes_into(repo, hf, [x for s in h.body for x in ast.walk(s)], h.name)
+                rep.check('R18.c', fkey(anchor, c) + '::handler total', not idx, 'the handler does not index into the exception' if not idx else
+                          'the handler indexes into the caught exception (%s): an exception without arguments makes the handler itself '
+                          'fail and the page answers 500' % short(idx[0], 50), meta, idx[0] if idx else h)
+            # the protected call runs once per peripheral (one bad section does not hide the others): on the way from the
+            # anchor to the handler there is a loop over the peripherals, and the try statement is inside it
+            ok = False
+            for j, (lf, ln) in enumerate(links):
+                if hj is not None and j > hj:
+                    break
+                for l in _loops_around(lf, ln):
+                    if not _iter_mentions(lf, l.iter, 'peripherals'):
+                        continue
+                    if j == hj:
+                        tr = meta.parents.get(h)
+                        holder = l if isinstance(l, ast.For) else meta.parents.get(l)
+                        if not any(tr is x for x in ast.walk(holder)):
+                            continue
+                    ok = True
+            rep.check('R18.c', fkey(anchor, c) + '::per section', ok, 'handled per peripheral' if ok else 'not handled per peripheral', meta, c)
+    rep.floor('R18.c', 6)
+
+
+# ------------------------------------------------------------------------------------------ R18.d
+def _with_locals(fi, expr, depth=0):
+    """``expr`` and, for every single-assignment local it mentions, the expression that local names (transitively)."""
+    out = [expr]
+    if depth > 3:
+        return out
+    for x in ast.walk(expr):
+        if isinstance(x, ast.Name) and isinstance(x.ctx, ast.Load):
+            srcs = [s.value for s in stmts_of(fi.node) if isinstance(s, ast.Assign) and len(s.targets) == 1 and
+                    isinstance(s.targets[0], ast.Name) and s.targets[0].id == x.id]
+            if len(srcs) == 1:
+                out.extend(_with_locals(fi, srcs[0], depth + 1))
+    return out
+
+
+def _r18d(rep, repo, meta):
+    pkg_dir = os.path.join(repo.root, 'clastic')
+    files = sorted(f for f in os.listdir(pkg_dir) if f.startswith('meta_') and f.endswith('.html'))
+    if len(files) < 8:
+        raise AnalysisError('only %d meta templates found (floor 8)' % len(files))
+    # which template does each ashes peripheral render?
+    sect = {}
+    amp = meta.cls('AshesMetaPeripheral')
+    for c in meta.classes.values():
+        if c is not amp and amp in repo.mro(c):
+            tp = c.class_attrs.get('template_path')
+            sect[c.name] = repo.try_fold(tp, meta) if tp is not None else None
+    rend = amp.methods.get('render_main_page_html')
+    init = amp.methods.get('__init__')
+    if rend is None or init is None:
+        raise AnalysisError('AshesMetaPeripheral: __init__ / render_main_page_html not found')
+    ok = all(isinstance(r.value, ast.Call) and isinstance(r.value.func, ast.Attribute) and r.value.func.attr == 'render' and
+             any(norm(x) == 'self.loaded_template' for x in _with_locals(rend, r.value.func.value)) for r in returns_of(rend)) and returns_of(rend)
+    rep.check('R18.d', fkey(rend), bool(ok), 'section HTML is an ashes render of the peripheral\'s own template' if ok else
+              'AshesMetaPeripheral.render_main_page_html does not return self.loaded_template.render(...)', meta, rend.node)
+    loads = [s for s in stmts_of(init.node) if isinstance(s, ast.Assign) and any(norm(t) == 'self.loaded_template' for t in s.targets)]
+    if not loads:
+        raise AnalysisError('AshesMetaPeripheral.__init__: assignment of self.loaded_template not found')
+    ok = all(any('self.template_path' in norm(x) for x in _with_locals(init, s.value)) for s in loads)
+    rep.check('R18.d', fkey(init), ok, 'loaded_template is loaded from self.template_path' if ok else 'loaded_template does not come from template_path', meta, init.node)
+    for cname, tp in sorted(sect.items()):
+        rep.check('R18.d', '%s::%s.template_path' % (META, cname), tp in files, '%s renders %s' % (cname, tp) if tp in files else
+                  '%s renders %r, which is not a shipped meta template' % (cname, tp), meta)
+    base_render = meta.cls('MetaPeripheral').methods.get('render_main_page_html')
+    if base_render is None:
+        raise AnalysisError('MetaPeripheral.render_main_page_html not found')
+    ok = all(isinstance(r.value, ast.Constant) and r.value.value is None for r in returns_of(base_render))
+    rep.check('R18.d', fkey(base_render), ok, 'non-template peripherals contribute no raw content' if ok else
+              'MetaPeripheral.render_main_page_html returns raw content', meta, base_render.node)
+
+    class _F(object):
+        def __init__(self, name):
+            self.name = 'clastic/' + name
+            self.relpath = 'clastic/' + name
+    for f in files:
+        with open(os.path.join(pkg_dir, f), encoding='utf-8') as fh:
+            text = fh.read()
+        allow = ('{content|s}',) if f == 'meta_base.html' else ()
+        check_template_escaping(rep, 'R18.d', repo, _F(f), f, text, allow=allow)
+    aw = autoescape_writes(repo)
+    rep.check('R18.d', 'clastic::autoescape_filter', not aw, 'no code in clastic assigns autoescape_filter' if not aw else
+              'autoescape_filter is assigned somewhere in clastic', meta)
+    mi = meta.func('MetaApplication.__init__')
+
+    def names_base(e):
+        return any(_fold_any(repo, mi, y) == 'meta_base.html' for x in _with_locals(mi, e) for y in ast.walk(x)
+                   if isinstance(y, (ast.Constant, ast.Name, ast.Attribute)))
+    renders = [s for s in stmts_of(mi.node) if isinstance(s, ast.Assign) and any(norm(t) == 'self._main_page_render' for t in s.targets)]
+    if not renders:
+        raise AnalysisError('MetaApplication.__init__: assignment of self._main_page_render not found')
+    ok = all(names_base(s.value) for s in renders)
+    rep.check('R18.d', fkey(mi, 'main template'), ok, 'the main page is rendered from meta_base.html' if ok else 'the main page template changed', meta, mi.node)
+    rep.floor('R18.d', 40)
 
 
 def run(rep):
@@ -41,192 +1789,17 @@ def run(rep):
     rep.rule('R18.c', 'must-catch around each peripheral call')
     rep.rule('R18.d', 'Dust reference escaping of the meta templates')
 
-    # ---- R18.a -----------------------------------------------------------
-    reads = []
-    for fi in meta.functions.values():
-        for n in walk_body(fi.node):
-            if isinstance(n, ast.Attribute) and n.attr == 'resources' and isinstance(n.ctx, ast.Load):
-                reads.append((fi, n))
-    if len(reads) < 3:
-        raise AnalysisError('meta.py: only %d reads of .resources found (floor 3)' % len(reads))
-    for fi, n in reads:
-        par = meta.parents.get(n)
-        gp = meta.parents.get(par)
-        kind = None
-        if isinstance(par, ast.Compare) and n in par.comparators and isinstance(par.ops[0], (ast.In, ast.NotIn)):
-            kind = 'key membership'
-        elif isinstance(par, ast.Attribute) and par.attr == 'keys':
-            kind = 'keys()'
-        elif isinstance(par, ast.Call) and call_name(par) == 'len':
-            kind = 'len()'
-        elif isinstance(par, ast.Subscript) and isinstance(par.slice, ast.Constant) and norm(n.value) in ('_meta_application', 'self'):
-            kind = 'own constant key %r of the meta application' % par.slice.value
-        elif isinstance(par, ast.Attribute) and par.attr == 'items' and isinstance(gp, ast.Call):
-            loop = meta.parents.get(gp)
-            if isinstance(loop, ast.For) and isinstance(loop.target, ast.Tuple) and len(loop.target.elts) == 2:
-                kv, vv = [norm(x) for x in loop.target.elts]
-                is_secret = lambda t: norm(t) == "'secret' in %s" % kv or norm(t) == "'secret' in %s.lower()" % kv
-                uses = [x for x in ast.walk(loop) if isinstance(x, ast.Name) and x.id == vv and isinstance(x.ctx, ast.Load)]
-                bad = [x for x in uses if not has_cond(conds(fi, x), is_secret, False)]
-                marks = [s for s in ast.walk(loop) if isinstance(s, ast.Assign) and isinstance(s.value, ast.Constant) and
-                         has_cond(conds(fi, s), is_secret, True)]
-                # the name that is tested is the resource's real name: the key variable is never re-bound in the loop
-                rebinds = [x for x in ast.walk(loop) if isinstance(x, ast.Name) and x.id == kv and isinstance(x.ctx, ast.Store) and
-                           not any(x is y for y in ast.walk(loop.target))]
-                rep.check('R18.a', fkey(fi, 'key variable intact'), not rebinds,
-                          "the 'secret' test looks at the resource name itself" if not rebinds else
-                          'the key variable %s is re-bound inside the loop (truncated / transformed) before the "secret" test: the decision is '
-                          'made on something else than the resource name' % kv, meta, rebinds[0] if rebinds else loop)
-                ok = not bad and len(marks) >= 1 and bool(uses)
-                rep.check('R18.a', fkey(fi, 'items() loop'), ok,
-                          "the value variable %s is read only where ('secret' in %s) is false; the other branch stores the constant %r"
-                          % (vv, kv, marks[0].value.value if marks else None) if ok else
-                          'a resource value is used without the "secret" test being false (%d unguarded uses) or no redaction marker is stored'
-                          % len(bad), meta, (bad or [loop])[0])
-                # what is appended uses the branch variable
-                tv = norm(marks[0].targets[0]) if marks else None
-                outs = [c for c in ast.walk(loop) if isinstance(c, ast.Call) and call_tail(c) == 'append']
-                ok2 = bool(outs) and all(vv not in names_loaded(c) for c in outs) and tv is not None and all(tv in names_loaded(c) for c in outs)
-                rep.check('R18.a', fkey(fi, 'output value'), ok2, 'the listed value is the branch result (%s), never the raw value' % tv if ok2 else
-                          'the raw resource value is put into the output', meta, outs[0] if outs else loop)
-                continue
-        rep.check('R18.a', fkey(fi, n) + '#' + str(reads.index((fi, n))), kind is not None,
-                  'read of .resources is %s' % kind if kind else
-                  '%s reads resource *values* (%s): secrets would be disclosed' % (fi.qualname, short(par)), meta, n)
-    # arbitrary host objects reachable through signatures: the defaults of endpoint parameters are used by *name* only
-    # (their values are user objects the non-dev JSON view cannot be assumed to encode, and may be sensitive)
-    n_def = 0
-    for fi in meta.functions.values():
-        dvars = set(norm(s.targets[0]) for s in stmts_of(fi.node) if isinstance(s, ast.Assign) and isinstance(s.value, ast.Call)
-                    and call_tail(s.value) == 'get_defaults_dict')
-        for n in walk_body(fi.node):
-            if isinstance(n, ast.Name) and n.id in dvars and isinstance(n.ctx, ast.Load):
-                n_def += 1
-                par = meta.parents.get(n)
-                key_only = (isinstance(par, ast.Compare) and n in par.comparators and isinstance(par.ops[0], (ast.In, ast.NotIn))) or \
-                    (isinstance(par, ast.Attribute) and par.attr == 'keys') or (isinstance(par, ast.Call) and call_name(par) in ('len', 'sorted', 'list', 'set'))
-                rep.check('R18.a', fkey(fi, 'defaults use ' + norm(par)[:50]), key_only, 'parameter defaults are consulted by name only' if key_only else
-                          '%s reads the *value* of an endpoint parameter default (%s) into the meta context: an arbitrary host object reaches the '
-                          'JSON view (encoder failure => 500 for the whole view, or disclosure)' % (fi.qualname, short(par)), meta, n)
-    # contexts never hold framework objects themselves
-    ctx_funcs = [fi for q, fi in meta.functions.items() if fi.name in ('get_context',) or q in
-                 ('get_route_infos', 'get_resource_info', 'get_mw_infos', 'get_endpoint_info', 'get_render_info', 'get_route_arg_info')]
-    n_vals = 0
-    for fi in ctx_funcs:
-        for n in walk_body(fi.node):
-            vals = []
-            if isinstance(n, ast.Dict):
-                vals = list(n.values)
-            elif isinstance(n, ast.Assign) and isinstance(n.targets[0], ast.Subscript):
-                vals = [n.value]
-            for v in vals:
-                n_vals += 1
-                if isinstance(v, ast.Name) and v.id in OBJECT_NAMES:
-                    rep.fail('R18.a', fkey(fi, 'context value ' + v.id), 'the %s object itself is stored in a page context: the JSON view would '
-                             'traverse it (resources, secret keys)' % v.id, meta, v)
-    rep.ok('R18.a', '%s::context values' % META, '%d values stored in peripheral contexts; none is an application/route/middleware/request object' % n_vals, meta)
-    rep.floor('R18.a', 5)
-
-    # ---- R18.b -----------------------------------------------------------
-    gm = meta.func('get_mw_infos')
-    loop = [s for s in stmts_of(gm.node) if isinstance(s, ast.For)]
-    if len(loop) != 1:
-        raise AnalysisError('get_mw_infos: loop not found')
-    mv = norm(loop[0].target)
-    attrs = set()
-    for n in ast.walk(loop[0]):
-        if isinstance(n, ast.Attribute) and isinstance(n.value, ast.Name) and n.value.id == mv:
-            attrs.add(n.attr)
-        if isinstance(n, ast.Call) and call_name(n) in ('vars', 'getattr') and n.args and norm(n.args[0]) == mv:
-            attrs.add('<%s>' % call_name(n))
-        if isinstance(n, ast.Attribute) and n.attr == '__dict__' and norm(n.value) == mv:
-            attrs.add('__dict__')
-    ok = attrs <= {'__class__', 'provides', 'requires', 'endpoint_provides', 'render_provides', 'name'}
-    rep.check('R18.b', fkey(gm, 'attributes read'), ok, 'only %s (and repr(mw)) are read from a middleware' % sorted(attrs) if ok else
-              'get_mw_infos reads %s from middlewares' % sorted(attrs), meta, gm.node)
-    mwbase = repo.mod('clastic.middleware.core').cls('Middleware')
-    n_repr = 0
-    for m in repo.all_internal_modules():
-        for c in m.classes.values():
-            if c is mwbase or mwbase not in repo.mro(c):
-                continue
-            for nm in ('__repr__', '__str__'):
-                r = c.methods.get(nm)
-                if r is None:
-                    continue
-                n_repr += 1
-                read = sorted(set(n.attr for n in ast.walk(r.node) if isinstance(n, ast.Attribute) and isinstance(n.value, ast.Name) and n.value.id == 'self'))
-                bad = [a for a in read if 'secret' in a.lower() or a.lower() in ('key', 'secret_key', 'signing_key', 'password') or a.lower().endswith('_key')]
-                wide = any(isinstance(n, ast.Call) and call_name(n) == 'vars' for n in ast.walk(r.node)) or \
-                    any(isinstance(n, ast.Attribute) and n.attr == '__dict__' for n in ast.walk(r.node))
-                rep.check('R18.b', fkey(r), not bad and not wide, '%s.%s shows %s' % (c.name, nm, read) if not bad and not wide else
-                          '%s.%s exposes %s (shown on the meta page for every visitor)' % (c.name, nm, bad or '__dict__'), m, r.node)
-    if n_repr < 3:
-        raise AnalysisError('only %d middleware __repr__ methods found (floor 3)' % n_repr)
-    rep.floor('R18.b', 4)
-
-    # ---- R18.c -----------------------------------------------------------
-    gmn = meta.func('MetaApplication.get_main')
-    rmp = meta.func('MetaApplication.render_main_page_html')
-    n_inj = 0
-    for fi, floor in ((gmn, 1), (rmp, 2)):
-        inj = [c for c in walk_body(fi.node) if isinstance(c, ast.Call) and call_name(c) == 'inject']
-        if len(inj) < floor:
-            raise AnalysisError('%s: %d inject calls (floor %d)' % (fi.qualname, len(inj), floor))
-        for c in inj:
-            n_inj += 1
-            h = protected_by(fi, c, 'Exception')
-            ok = h is not None and not any(isinstance(r, ast.Raise) for r in ast.walk(h)) and \
-                any(isinstance(s, ast.Assign) for s in h.body)
-            rep.check('R18.c', fkey(fi, c), ok, 'a failing peripheral is replaced by a placeholder (handler: except %s)' % (norm(h.type) if h else None) if ok else
-                      'a failing peripheral call %s fails the whole meta page' % short(c), meta, c)
-            # the protected call is inside the per-peripheral loop (one bad section does not hide the others)
-            loop_ = [s for s in stmts_of(fi.node) if isinstance(s, ast.For) and any(c is x for x in ast.walk(s))]
-            ok = len(loop_) >= 1 and 'peripherals' in norm(loop_[0].iter)
-            rep.check('R18.c', fkey(fi, c) + '::per section', ok, 'handled per peripheral' if ok else 'not handled per peripheral', meta, c)
-    ok = any(isinstance(c, ast.Call) and norm(c.func).endswith('setdefault') for c in walk_body(gmn.node))
-    # (the update of full_ctx happens after the handler, so a placeholder is merged like a real context)
-    rep.floor('R18.c', 6)
-
-    # ---- R18.d -----------------------------------------------------------
-    pkg_dir = os.path.join(repo.root, 'clastic')
-    files = sorted(f for f in os.listdir(pkg_dir) if f.startswith('meta_') and f.endswith('.html'))
-    if len(files) < 8:
-        raise AnalysisError('only %d meta templates found (floor 8)' % len(files))
-    # which template does each ashes peripheral render?
-    sect = {}
-    amp = meta.cls('AshesMetaPeripheral')
-    for c in meta.classes.values():
-        if c is not amp and amp in repo.mro(c):
-            tp = c.class_attrs.get('template_path')
-            sect[c.name] = repo.try_fold(tp, meta) if tp is not None else None
-    rend = amp.methods['render_main_page_html']
-    ok = all(isinstance(r.value, ast.Call) and norm(r.value.func) == 'self.loaded_template.render' for r in returns_of(rend)) and returns_of(rend)
-    rep.check('R18.d', fkey(rend), bool(ok), 'section HTML is an ashes render of the peripheral\'s own template' if ok else
-              'AshesMetaPeripheral.render_main_page_html does not return self.loaded_template.render(...)', meta, rend.node)
-    init = amp.methods['__init__']
-    ok = any(isinstance(s, ast.Assign) and norm(s.targets[0]) == 'self.loaded_template' and 'self.template_path' in norm(s.value) for s in stmts_of(init.node))
-    rep.check('R18.d', fkey(init), ok, 'loaded_template is loaded from self.template_path' if ok else 'loaded_template does not come from template_path', meta, init.node)
-    for cname, tp in sorted(sect.items()):
-        rep.check('R18.d', '%s::%s.template_path' % (META, cname), tp in files, '%s renders %s' % (cname, tp) if tp in files else
-                  '%s renders %r, which is not a shipped meta template' % (cname, tp), meta)
-    base_render = meta.cls('MetaPeripheral').methods['render_main_page_html']
-    ok = all(isinstance(r.value, ast.Constant) and r.value.value is None for r in returns_of(base_render))
-    rep.check('R18.d', fkey(base_render), ok, 'non-template peripherals contribute no raw content' if ok else
-              'MetaPeripheral.render_main_page_html returns raw content', meta, base_render.node)
-    class _F(object):
-        def __init__(self, name):
-            self.name = 'clastic/' + name
-            self.relpath = 'clastic/' + name
-    for f in files:
-        with open(os.path.join(pkg_dir, f), encoding='utf-8') as fh:
-            text = fh.read()
-        allow = ('{content|s}',) if f == 'meta_base.html' else ()
-        check_template_escaping(rep, 'R18.d', repo, _F(f), f, text, allow=allow)
-    aw = autoescape_writes(repo)
-    rep.check('R18.d', 'clastic::autoescape_filter', not aw, 'no code in clastic assigns autoescape_filter' if not aw else
-              'autoescape_filter is assigned somewhere in clastic', meta)
-    mi = meta.func('MetaApplication.__init__')
-    ok = any(isinstance(s, ast.Assign) and norm(s.targets[0]) == 'self._main_page_render' and "'meta_base.html'" in norm(s.value) for s in stmts_of(mi.node))
-    rep.check('R18.d', fkey(mi, 'main template'), ok, 'the main page is rendered from meta_base.html' if ok else 'the main page template changed', meta, mi.node)
-    rep.floor('R18.d', 40)
+    def group(fn):
+        def rule_group():
+            try:
+                return fn(rep, repo, meta)
+            except AnalysisError:
+                raise
+            except RecursionError as e:
+                raise AnalysisError('%s: construct too deep to analyse (%s)' % (fn.__name__.strip('_'), e))
+            except (AttributeError, KeyError, IndexError, TypeError, ValueError) as e:
+                raise AnalysisError('%s: unexpected shape (%s: %s)' % (fn.__name__.strip('_'), type(e).__name__, e))
+        rule_group.__name__ = fn.__name__.strip('_')
+        return rule_group
+    for fn in (_r18a, _r18b, _r18c, _r18d):
+        rep.guard(group(fn))
